@@ -1,162 +1,203 @@
 /-
   C17 — Invalid input is rejected up front, with a typed error and no side effects.
 
-  Statements and final proofs.  Models: Model/Settings.lean (settings.py + config.py),
-  Model/Pipeline.lean (phase order of main.client / main.graphql_schema with an effect log;
-  graphql-core's verdicts are oracle inputs).  Lemmas: Proofs/Settings.lean.
+  Statements and final proofs.  Models: Model/Toml.lean (TOML values of every kind and the Python
+  operations applied to them), Model/Settings.lean (settings.py + config.py), Model/SourceLoad.lean
+  (schema.py: file or directory tree -> one document), Model/ConfigFile.lean (config.get_config_file_path),
+  Model/Pipeline.lean (phase order of main.client / main.graphql_schema with an effect log, plugin
+  lookup; graphql-core's verdicts are oracle inputs).  Lemmas: Proofs/Settings.lean, Proofs/SourceLoad.lean,
+  Proofs/Pipeline.lean.
 
   Shape (DESIGN.md §0):  `C17_full` is the property at full strength, `C17_full_false` refutes it
   from witnesses (one per open finding, each replayed on the real code by harness/c17.py),
   `C17_partial` proves it outside the finding triggers.  The settings clauses
-  (`violation_typed`, `valid_accepted`, `unknown_keys_ignored`, `settings_pure`) and the phase
-  clause (`no_write_before_generate`) are proved for all inputs without exception.
+  (`violation_raises`, `violation_typed`, `valid_accepted`, `accepted_iff_documented`,
+  `unknown_keys_ignored`, `settings_pure`) hold for option values of EVERY TOML kind; the phase clause
+  (`no_write_before_generate`) and the per-file syntax clause (`source_refused_iff_some_file_bad`) hold
+  for all inputs, all directory trees and every `parses`.
 -/
 import AriadneModel.Model.Settings
+import AriadneModel.Model.SourceLoad
+import AriadneModel.Model.ConfigFile
 import AriadneModel.Model.Pipeline
 import AriadneModel.Proofs.Settings
+import AriadneModel.Proofs.SourceLoad
 import AriadneModel.Proofs.Pipeline
 
 set_option linter.unusedSimpArgs false
 set_option linter.unusedVariables false
 
 namespace Ariadne.C17
-open Ariadne Ariadne.Settings Ariadne.Pipeline
+open Ariadne Ariadne.Settings Ariadne.SourceLoad Ariadne.Pipeline
 
-/-! ## 1. Every documented single-constraint violation yields its exception (client settings) -/
+/-! ## 1. Every documented single-constraint violation yields its exception (client settings),
+       for option values of every kind -/
+
+/-- a flag value that selects a bundled base client: equal to `True` or `False` as a dict key
+    (booleans, but also 0 / 1 / 0.0 / 1.0) -/
+def BoolLike (v : TV) : Prop := ∃ b, v.boolKey = some (some b)
 
 /-- the constraint guarded by check `k` is violated (stated on the dataclass fields, the file
     system, the environment — not on the model's check functions) -/
 def Violates (env : Env) (s : ClientSettings) : ClientCheck → Prop
-  | .queriesRequired => s.queriesPath = "" ∧ s.enableCustomOperations = false
-  | .schemaSource => s.schemaPath = "" ∧ s.remoteSchemaUrl = ""
-  | .schemaPathExists => s.schemaPath ≠ "" ∧ env.pathExists s.schemaPath = false
-  | .headers => ∃ kv ∈ s.remoteSchemaHeaders, ¬ HeaderResolvable env kv.2
-  | .commentMode => Tables.commentsStrategies.contains s.includeComments = false
-  | .queriesPathExists => env.pathExists s.queriesPath = false
-  | .packageName => validName env s.targetPackageName = false
-  | .packagePathDir => env.isDir s.targetPackagePath = false
-  | .clientName => validName env s.clientName = false
-  | .clientFileName => validName env s.clientFileName = false
-  | .baseClientName => validName env (baseClientData env s).1 = false
-  | .baseClientPathExists => env.pathExists (baseClientData env s).2 = false
-  | .baseClientIsFile => env.isFile (baseClientData env s).2 = false
-  | .baseClientClass => classDefinedIn env (baseClientData env s).2 (baseClientData env s).1 = false
-  | .enumsModule => validName env s.enumsModuleName = false
-  | .inputTypesModule => validName env s.inputTypesModuleName = false
-  | .fragmentsModule => validName env s.fragmentsModuleName = false
-  | .filesToInclude => ∃ f ∈ s.filesToInclude, env.isFile f = false
+  | .queriesRequired => s.queriesPath.truthy = false ∧ s.enableCustomOperations.truthy = false
+  | .schemaSource => s.schemaPath.truthy = false ∧ s.remoteSchemaUrl.truthy = false
+  | .schemaPathExists => s.schemaPath.truthy = true ∧ ¬ IsPath env.pathExists s.schemaPath
+  | .headers => ¬ HeadersOk env s.remoteSchemaHeaders
+  | .commentMode => isCommentMode s.includeComments = false
+  | .baseClientDefaults =>
+      s.baseClientName.truthy = false ∧ s.baseClientFilePath.truthy = false ∧
+        ¬ (BoolLike s.asyncClient ∧ BoolLike s.opentelemetryClient)
+  | .queriesPathExists => ¬ IsPath env.pathExists s.queriesPath
+  | .packageName => ¬ IsName env s.targetPackageName
+  | .packagePathDir => ¬ IsPath env.isDir s.targetPackagePath
+  | .clientName => ¬ IsName env s.clientName
+  | .clientFileName => ¬ IsName env s.clientFileName
+  | .baseClientName => ¬ IsName env (baseClientData env s).1
+  | .baseClientPathExists => ¬ IsPath env.pathExists (baseClientData env s).2
+  | .baseClientIsFile => ¬ IsPath env.isFile (baseClientData env s).2
+  | .baseClientClass =>
+      ¬ IsPath (fun p => classDefinedIn env p (baseClientData env s).1.pyStr) (baseClientData env s).2
+  | .enumsModule => ¬ IsName env s.enumsModuleName
+  | .inputTypesModule => ¬ IsName env s.inputTypesModuleName
+  | .fragmentsModule => ¬ IsName env s.fragmentsModuleName
+  | .filesToInclude => ¬ FilesOk env s.filesToInclude
 
-/-- the exception constructor that corresponds to check `k` (it names the offending value) -/
+/-- what a failing path check raises: the path exception naming the `str`, or — for a value that is
+    not a `str` — `Path(v)`'s `TypeError`, which config.py reports as `MissingConfiguration` -/
+def PathExpected (missing : List String) (err : String → ConfigError) (v : TV) (e : ConfigError) : Prop :=
+  (∃ p, v = .str p ∧ e = err p) ∨ (v.isStr = false ∧ e = .typeErrorAsMissing missing)
+
+/-- what a failing name check raises: the identifier exception naming the `str`, or — for a value
+    that is not a `str` — a bare `AttributeError` -/
+def NameExpected (v : TV) (e : ConfigError) : Prop :=
+  (∃ n, v = .str n ∧ e = .badIdentifier n) ∨ (v.isStr = false ∧ e = .internal "AttributeError")
+
+/-- the exception that corresponds to check `k` (it names the offending value) -/
 def Expected (env : Env) (s : ClientSettings) : ClientCheck → ConfigError → Prop
   | .queriesRequired, e => e = .missingFields s.missing
   | .schemaSource, e => e = .noSchemaSource
-  | .schemaPathExists, e => e = .pathMissing s.schemaPath
-  | .headers, e => ∃ kv ∈ s.remoteSchemaHeaders, e = .envVarMissing (lstripDollar kv.2)
-  | .commentMode, e => e = .badCommentMode s.includeComments
-  | .queriesPathExists, e => e = .pathMissing s.queriesPath
-  | .packageName, e => e = .badIdentifier s.targetPackageName
-  | .packagePathDir, e => e = .notDirectory s.targetPackagePath
-  | .clientName, e => e = .badIdentifier s.clientName
-  | .clientFileName, e => e = .badIdentifier s.clientFileName
-  | .baseClientName, e => e = .badIdentifier (baseClientData env s).1
-  | .baseClientPathExists, e => e = .pathMissing (baseClientData env s).2
-  | .baseClientIsFile, e => e = .notFile (baseClientData env s).2
-  | .baseClientClass, e => e = .classNotInFile (baseClientData env s).1 (baseClientData env s).2
-  | .enumsModule, e => e = .badIdentifier s.enumsModuleName
-  | .inputTypesModule, e => e = .badIdentifier s.inputTypesModuleName
-  | .fragmentsModule, e => e = .badIdentifier s.fragmentsModuleName
-  | .filesToInclude, e => ∃ f ∈ s.filesToInclude, env.isFile f = false ∧ e = .notFile f
+  | .schemaPathExists, e => PathExpected s.missing .pathMissing s.schemaPath e
+  | .headers, e =>
+      (∃ kvs, s.remoteSchemaHeaders = .table kvs ∧ HeaderErrorOf kvs e) ∨
+      (s.remoteSchemaHeaders.isTable = false ∧ e = .internal "AttributeError")
+  | .commentMode, e => e = .badCommentMode s.includeComments.pyStr
+  | .baseClientDefaults, e => e = .internal "KeyError" ∨ e = .typeErrorAsMissing s.missing
+  | .queriesPathExists, e => PathExpected s.missing .pathMissing s.queriesPath e
+  | .packageName, e => NameExpected s.targetPackageName e
+  | .packagePathDir, e => PathExpected s.missing .notDirectory s.targetPackagePath e
+  | .clientName, e => NameExpected s.clientName e
+  | .clientFileName, e => NameExpected s.clientFileName e
+  | .baseClientName, e => NameExpected (baseClientData env s).1 e
+  | .baseClientPathExists, e => PathExpected s.missing .pathMissing (baseClientData env s).2 e
+  | .baseClientIsFile, e => PathExpected s.missing .notFile (baseClientData env s).2 e
+  | .baseClientClass, e =>
+      PathExpected s.missing (fun p => .classNotInFile (baseClientData env s).1.pyStr p) (baseClientData env s).2 e
+  | .enumsModule, e => NameExpected s.enumsModuleName e
+  | .inputTypesModule, e => NameExpected s.inputTypesModuleName e
+  | .fragmentsModule, e => NameExpected s.fragmentsModuleName e
+  | .filesToInclude, e =>
+      (s.filesToInclude.pyIter = none ∧ e = .typeErrorAsMissing s.missing) ∨
+      (∃ items, s.filesToInclude.pyIter = some items ∧ FileErrorOf env s.missing items e)
+
+theorem defaults_raises_iff (s : ClientSettings) :
+    (defaultsOutcome s = .keyError ∨ defaultsOutcome s = .typeError) ↔
+      (s.baseClientName.truthy = false ∧ s.baseClientFilePath.truthy = false ∧
+        ¬ (BoolLike s.asyncClient ∧ BoolLike s.opentelemetryClient)) := by
+  unfold defaultsOutcome BoolLike
+  cases hn : s.baseClientName.truthy <;> cases hp : s.baseClientFilePath.truthy <;> simp
+  rcases ha : s.asyncClient.boolKey with _ | _ | a <;> rcases ho : s.opentelemetryClient.boolKey with _ | _ | o <;> simp
 
 /-- a check raises exactly when its constraint is violated -/
 theorem check_raises_iff (env : Env) (s : ClientSettings) (k : ClientCheck) :
     (∃ e, evalClientCheck env s k = some e) ↔ Violates env s k := by
   cases k <;> simp only [evalClientCheck, Violates]
-  case queriesRequired => cases hq : (s.queriesPath == "") <;> cases s.enableCustomOperations <;> simp_all
-  case schemaSource => cases hq : (s.schemaPath == "") <;> cases hr : (s.remoteSchemaUrl == "") <;> simp_all
-  case schemaPathExists => cases hq : (s.schemaPath == "") <;> cases env.pathExists s.schemaPath <;> simp_all
+  case queriesRequired => cases s.queriesPath.truthy <;> cases s.enableCustomOperations.truthy <;> simp
+  case schemaSource => cases s.schemaPath.truthy <;> cases s.remoteSchemaUrl.truthy <;> simp
+  case schemaPathExists =>
+    cases ht : s.schemaPath.truthy
+    · simp
+    · simp only [if_true, true_and]; exact pathCheck_some_iff _ _ _ _
   case headers =>
-    constructor
-    · rintro ⟨e, he⟩
-      apply Classical.byContradiction
-      intro hn
-      have : ∀ kv ∈ s.remoteSchemaHeaders, HeaderResolvable env kv.2 := by
-        intro kv hkv
-        apply Classical.byContradiction
-        intro hnr
-        exact hn ⟨kv, hkv, hnr⟩
-      rw [(firstBadHeader_none_iff env _).mpr this] at he
-      cases he
-    · rintro ⟨kv, hkv, hnr⟩
-      cases hb : firstBadHeader env s.remoteSchemaHeaders with
-      | some e => exact ⟨e, rfl⟩
-      | none => exact absurd ((firstBadHeader_none_iff env _).mp hb kv hkv) hnr
-  case commentMode => cases Tables.commentsStrategies.contains s.includeComments <;> simp
-  case queriesPathExists => cases env.pathExists s.queriesPath <;> simp
-  case packageName => exact identCheck_some_iff env _
-  case packagePathDir => cases env.isDir s.targetPackagePath <;> simp
-  case clientName => exact identCheck_some_iff env _
-  case clientFileName => exact identCheck_some_iff env _
-  case baseClientName => exact identCheck_some_iff env _
-  case baseClientPathExists => cases env.pathExists (baseClientData env s).2 <;> simp
-  case baseClientIsFile => cases env.isFile (baseClientData env s).2 <;> simp
-  case baseClientClass => cases classDefinedIn env (baseClientData env s).2 (baseClientData env s).1 <;> simp
-  case enumsModule => exact identCheck_some_iff env _
-  case inputTypesModule => exact identCheck_some_iff env _
-  case fragmentsModule => exact identCheck_some_iff env _
+    rw [← firstBadHeaderV_none_iff]
+    cases firstBadHeaderV env s.remoteSchemaHeaders <;> simp
+  case commentMode => cases isCommentMode s.includeComments <;> simp
+  case baseClientDefaults =>
+    rw [← defaults_raises_iff]
+    cases defaultsOutcome s <;> simp
+  case queriesPathExists => exact pathCheck_some_iff _ _ _ _
+  case packageName => exact identCheckV_some_iff env _
+  case packagePathDir => exact pathCheck_some_iff _ _ _ _
+  case clientName => exact identCheckV_some_iff env _
+  case clientFileName => exact identCheckV_some_iff env _
+  case baseClientName => exact identCheckV_some_iff env _
+  case baseClientPathExists => exact pathCheck_some_iff _ _ _ _
+  case baseClientIsFile => exact pathCheck_some_iff _ _ _ _
+  case baseClientClass => exact pathCheck_some_iff _ _ _ _
+  case enumsModule => exact identCheckV_some_iff env _
+  case inputTypesModule => exact identCheckV_some_iff env _
+  case fragmentsModule => exact identCheckV_some_iff env _
   case filesToInclude =>
-    constructor
-    · rintro ⟨e, he⟩
-      obtain ⟨f, hf, hnf, _⟩ := firstNonFile_some env _ e he
-      exact ⟨f, hf, hnf⟩
-    · rintro ⟨f, hf, hnf⟩
-      cases hb : firstNonFile env s.filesToInclude with
-      | some e => exact ⟨e, rfl⟩
-      | none =>
-        have := (firstNonFile_none_iff env _).mp hb f hf
-        simp [hnf] at this
+    unfold FilesOk
+    cases hi : s.filesToInclude.pyIter with
+    | none => simp
+    | some items =>
+      simp only [Option.some.injEq, exists_eq_left']
+      rw [← firstNonFileV_none_iff env s.missing]
+      cases firstNonFileV env s.missing items <;> simp
 
-/-- what a check raises is the corresponding constructor, carrying the offending value -/
+theorem pathExpected_of (missing : List String) (test : String → Bool) (err : String → ConfigError) (v : TV)
+    (e : ConfigError) (h : pathCheck missing test err v = some e) : PathExpected missing err v e := by
+  rcases pathCheck_eq missing test err v e h with ⟨p, hv, _, he⟩ | h2
+  · exact Or.inl ⟨p, hv, he⟩
+  · exact Or.inr h2
+
+/-- what a check raises is the corresponding exception, carrying the offending value -/
 theorem check_error_expected (env : Env) (s : ClientSettings) (k : ClientCheck) (e : ConfigError)
     (h : evalClientCheck env s k = some e) : Expected env s k e := by
   cases k <;> simp only [evalClientCheck, Expected] at h ⊢
   case queriesRequired => split at h <;> simp_all
   case schemaSource => split at h <;> simp_all
-  case schemaPathExists => split at h <;> simp_all
-  case headers => exact firstBadHeader_some env _ e h
+  case schemaPathExists =>
+    split at h
+    · exact pathExpected_of _ _ _ _ _ h
+    · cases h
+  case headers => exact firstBadHeaderV_some env _ e h
   case commentMode => split at h <;> simp_all
-  case queriesPathExists => split at h <;> simp_all
-  case packageName => exact identCheck_eq env _ e h
-  case packagePathDir => split at h <;> simp_all
-  case clientName => exact identCheck_eq env _ e h
-  case clientFileName => exact identCheck_eq env _ e h
-  case baseClientName => exact identCheck_eq env _ e h
-  case baseClientPathExists => split at h <;> simp_all
-  case baseClientIsFile => split at h <;> simp_all
-  case baseClientClass => split at h <;> simp_all
-  case enumsModule => exact identCheck_eq env _ e h
-  case inputTypesModule => exact identCheck_eq env _ e h
-  case fragmentsModule => exact identCheck_eq env _ e h
-  case filesToInclude => exact firstNonFile_some env _ e h
+  case baseClientDefaults =>
+    split at h
+    · left; simp_all
+    · right; simp_all
+    · cases h
+  case queriesPathExists => exact pathExpected_of _ _ _ _ _ h
+  case packageName => exact identCheckV_eq env _ e h
+  case packagePathDir => exact pathExpected_of _ _ _ _ _ h
+  case clientName => exact identCheckV_eq env _ e h
+  case clientFileName => exact identCheckV_eq env _ e h
+  case baseClientName => exact identCheckV_eq env _ e h
+  case baseClientPathExists => exact pathExpected_of _ _ _ _ _ h
+  case baseClientIsFile => exact pathExpected_of _ _ _ _ _ h
+  case baseClientClass => exact pathExpected_of _ _ _ _ _ h
+  case enumsModule => exact identCheckV_eq env _ e h
+  case inputTypesModule => exact identCheckV_eq env _ e h
+  case fragmentsModule => exact identCheckV_eq env _ e h
+  case filesToInclude =>
+    cases hi : s.filesToInclude.pyIter with
+    | none => simp [hi] at h; exact Or.inl ⟨rfl, h.symm⟩
+    | some items =>
+      simp only [hi] at h
+      exact Or.inr ⟨items, rfl, firstNonFileV_some env s.missing items e h⟩
 
-/-- every exception a check raises is an ariadne-codegen exception class
-    (`InvalidConfiguration`, or `MissingConfiguration` for the missing `queries_path`) -/
-theorem check_error_typed (env : Env) (s : ClientSettings) (k : ClientCheck) (e : ConfigError)
-    (h : evalClientCheck env s k = some e) : e.typed = true := by
-  have hx := check_error_expected env s k e h
-  cases k <;> simp only [Expected] at hx
-  case headers => obtain ⟨kv, _, rfl⟩ := hx; rfl
-  case filesToInclude => obtain ⟨f, _, _, rfl⟩ := hx; rfl
-  all_goals (subst hx; rfl)
-
-/-- **violation_typed** (must): if the constraint of check `k` is violated and no earlier check of
-    `__post_init__` fires, the settings are rejected with the exception constructor of `k`
-    (an ariadne-codegen class, carrying the offending value). -/
-theorem violation_typed (env : Env) (s : ClientSettings) (k : ClientCheck) (pre post : List ClientCheck)
+/-- **violation_raises** (must), for values of every kind: if the constraint of check `k` is violated
+    and no earlier check of `__post_init__` fires, the settings are rejected with the exception of `k`
+    (`Expected`: it names the offending value; for a value of the wrong kind it says which Python
+    exception that is). -/
+theorem violation_raises (env : Env) (s : ClientSettings) (k : ClientCheck) (pre post : List ClientCheck)
     (hord : ClientCheck.order = pre ++ k :: post)
     (hk : Violates env s k) (hpre : ∀ k' ∈ pre, ¬ Violates env s k') :
-    ∃ e, clientPostInit env s = .error e ∧ Expected env s k e ∧ e.typed = true := by
+    ∃ e, clientPostInit env s = .error e ∧ Expected env s k e := by
   obtain ⟨e, he⟩ := (check_raises_iff env s k).mpr hk
-  refine ⟨e, ?_, check_error_expected env s k e he, check_error_typed env s k e he⟩
+  refine ⟨e, ?_, check_error_expected env s k e he⟩
   have hnone : ∀ k' ∈ pre, evalClientCheck env s k' = none := by
     intro k' hk'
     cases hc : evalClientCheck env s k' with
@@ -164,6 +205,130 @@ theorem violation_typed (env : Env) (s : ClientSettings) (k : ClientCheck) (pre 
     | some e' => exact absurd ((check_raises_iff env s k').mp ⟨e', hc⟩) (hpre k' hk')
   unfold clientPostInit
   rw [hord, firstError_append_some (evalClientCheck env s) pre post k e he hnone]
+
+/-! ### option values of the documented kinds: every rejection is an ariadne-codegen exception -/
+
+def strList : TV → Bool
+  | .list xs => xs.all TV.isStr
+  | _ => false
+
+def strTable : TV → Bool
+  | .table kvs => kvs.all (fun kv => kv.2.isStr)
+  | _ => false
+
+/-- the fields of the dataclass hold values of the kinds its annotations name -/
+structure WellTyped (s : ClientSettings) : Prop where
+  schemaPath : s.schemaPath.isStr = true
+  headers : strTable s.remoteSchemaHeaders = true
+  queriesPath : s.queriesPath.isStr = true
+  packageName : s.targetPackageName.isStr = true
+  packagePath : s.targetPackagePath.isStr = true
+  clientName : s.clientName.isStr = true
+  clientFileName : s.clientFileName.isStr = true
+  baseClientName : s.baseClientName.isStr = true
+  baseClientPath : s.baseClientFilePath.isStr = true
+  enumsModule : s.enumsModuleName.isStr = true
+  inputTypesModule : s.inputTypesModuleName.isStr = true
+  fragmentsModule : s.fragmentsModuleName.isStr = true
+  asyncClient : s.asyncClient.isBool = true
+  otelClient : s.opentelemetryClient.isBool = true
+  files : strList s.filesToInclude = true
+
+theorem pathExpected_typed (missing : List String) (err : String → ConfigError) (v : TV) (e : ConfigError)
+    (hv : v.isStr = true) (herr : ∀ p, (err p).typed = true) (h : PathExpected missing err v e) : e.typed = true := by
+  rcases h with ⟨p, _, rfl⟩ | ⟨hn, _⟩
+  · exact herr p
+  · rw [hv] at hn; cases hn
+
+theorem nameExpected_typed (v : TV) (e : ConfigError) (hv : v.isStr = true) (h : NameExpected v e) : e.typed = true := by
+  rcases h with ⟨p, _, rfl⟩ | ⟨hn, _⟩
+  · rfl
+  · rw [hv] at hn; cases hn
+
+theorem baseClientData_isStr (env : Env) (s : ClientSettings) (hn : s.baseClientName.isStr = true)
+    (hp : s.baseClientFilePath.isStr = true) :
+    (baseClientData env s).1.isStr = true ∧ (baseClientData env s).2.isStr = true := by
+  unfold baseClientData
+  cases defaultsOutcome s
+  case pick kind => exact ⟨rfl, rfl⟩
+  all_goals exact ⟨hn, hp⟩
+
+/-- with well-typed fields every exception a check raises is an ariadne-codegen exception class
+    (`InvalidConfiguration`, or `MissingConfiguration` for the missing `queries_path`) -/
+theorem check_error_typed (env : Env) (s : ClientSettings) (hw : WellTyped s) (k : ClientCheck) (e : ConfigError)
+    (h : evalClientCheck env s k = some e) : e.typed = true := by
+  have hx := check_error_expected env s k e h
+  have hb := baseClientData_isStr env s hw.baseClientName hw.baseClientPath
+  cases k <;> simp only [Expected] at hx
+  case queriesRequired => subst hx; rfl
+  case schemaSource => subst hx; rfl
+  case schemaPathExists => exact pathExpected_typed _ _ _ _ hw.schemaPath (fun _ => rfl) hx
+  case headers =>
+    have hh := hw.headers
+    rcases hx with ⟨kvs, hk, kv, hm, hkv⟩ | ⟨hn, _⟩
+    · rw [hk] at hh
+      simp only [strTable, List.all_eq_true] at hh
+      rcases hkv with ⟨x, _, rfl⟩ | ⟨hns, _⟩
+      · rfl
+      · rw [hh kv hm] at hns; cases hns
+    · cases hv : s.remoteSchemaHeaders <;> simp [hv, strTable, TV.isTable] at hh hn
+  case commentMode => subst hx; rfl
+  case baseClientDefaults =>
+    -- boolean flags always select a bundled client
+    exfalso
+    have hv : Violates env s .baseClientDefaults := (check_raises_iff env s .baseClientDefaults).mp ⟨e, h⟩
+    simp only [Violates] at hv
+    apply hv.2.2
+    have ha := hw.asyncClient
+    have ho := hw.otelClient
+    cases hva : s.asyncClient <;> simp [hva, TV.isBool] at ha
+    cases hvo : s.opentelemetryClient <;> simp [hvo, TV.isBool] at ho
+    exact ⟨⟨_, rfl⟩, ⟨_, rfl⟩⟩
+  case queriesPathExists => exact pathExpected_typed _ _ _ _ hw.queriesPath (fun _ => rfl) hx
+  case packageName => exact nameExpected_typed _ _ hw.packageName hx
+  case packagePathDir => exact pathExpected_typed _ _ _ _ hw.packagePath (fun _ => rfl) hx
+  case clientName => exact nameExpected_typed _ _ hw.clientName hx
+  case clientFileName => exact nameExpected_typed _ _ hw.clientFileName hx
+  case baseClientName => exact nameExpected_typed _ _ hb.1 hx
+  case baseClientPathExists => exact pathExpected_typed _ _ _ _ hb.2 (fun _ => rfl) hx
+  case baseClientIsFile => exact pathExpected_typed _ _ _ _ hb.2 (fun _ => rfl) hx
+  case baseClientClass => exact pathExpected_typed _ _ _ _ hb.2 (fun _ => rfl) hx
+  case enumsModule => exact nameExpected_typed _ _ hw.enumsModule hx
+  case inputTypesModule => exact nameExpected_typed _ _ hw.inputTypesModule hx
+  case fragmentsModule => exact nameExpected_typed _ _ hw.fragmentsModule hx
+  case filesToInclude =>
+    have hf := hw.files
+    cases hv : s.filesToInclude <;> simp [hv, strList] at hf
+    case list xs =>
+      rw [hv] at hx
+      simp only [TV.pyIter, reduceCtorEq, false_and, Option.some.injEq, exists_eq_left', false_or] at hx
+      obtain ⟨f, hm, hh⟩ := hx
+      rcases hh with ⟨p, _, _, rfl⟩ | ⟨hns, _⟩
+      · rfl
+      · have := hf f hm
+        rw [this] at hns; cases hns
+
+/-- **violation_typed** (must): for option values of the documented kinds, a violated constraint whose
+    predecessors hold is rejected with the corresponding ariadne-codegen exception class -/
+theorem violation_typed (env : Env) (s : ClientSettings) (hw : WellTyped s) (k : ClientCheck) (pre post : List ClientCheck)
+    (hord : ClientCheck.order = pre ++ k :: post)
+    (hk : Violates env s k) (hpre : ∀ k' ∈ pre, ¬ Violates env s k') :
+    ∃ e, clientPostInit env s = .error e ∧ Expected env s k e ∧ e.typed = true := by
+  obtain ⟨e, he, hx⟩ := violation_raises env s k pre post hord hk hpre
+  refine ⟨e, he, hx, ?_⟩
+  obtain ⟨e', he'⟩ := (check_raises_iff env s k).mpr hk
+  have hnone : ∀ k' ∈ pre, evalClientCheck env s k' = none := by
+    intro k' hk'
+    cases hc : evalClientCheck env s k' with
+    | none => rfl
+    | some e2 => exact absurd ((check_raises_iff env s k').mp ⟨e2, hc⟩) (hpre k' hk')
+  have : clientPostInit env s = .error e' := by
+    unfold clientPostInit
+    rw [hord, firstError_append_some (evalClientCheck env s) pre post k e' he' hnone]
+  rw [this] at he
+  injection he with he
+  subst he
+  exact check_error_typed env s hw k _ he'
 
 /-- non-vacuity of `violation_typed`: a keyword as client name with everything else in order -/
 def exEnv : Env := {
@@ -173,6 +338,18 @@ def exEnv : Env := {
 def exSettings : ClientSettings :=
   { schemaPath := "s.graphql", queriesPath := "q.graphql", targetPackagePath := "/w", clientName := "class" }
 example : clientPostInit exEnv exSettings = .error (.badIdentifier "class") := by decide
+example : WellTyped exSettings := by constructor <;> decide
+
+/-- the Python `1 == True` trap, at the level of `__post_init__`: the NUMBER 1 as comment mode is an
+    unknown comment mode (`CommentsStrategy(1)` raises), while as a FLAG it selects the async client -/
+example : clientPostInit exEnv { exSettings with clientName := "Client", includeComments := .int 1 } =
+    .error (.badCommentMode "1") := by decide
+example : clientPostInit exEnv { exSettings with clientName := "Client", includeComments := .float "1.0" } =
+    .error (.badCommentMode "1.0") := by decide
+example : (clientPostInit exEnv { exSettings with clientName := "Client", asyncClient := .int 1, opentelemetryClient := .float "0.0" }).toOption.map
+    (·.baseClientName) = some (.str "AsyncBaseClient") := by decide
+example : clientPostInit exEnv { exSettings with clientName := "Client", asyncClient := .int 2 } = .error (.internal "KeyError") := by decide
+example : clientPostInit exEnv { exSettings with clientName := .int 5 } = .error (.internal "AttributeError") := by decide
 
 /-- conversely every rejection comes from a violated constraint all of whose predecessors hold -/
 theorem rejection_is_a_violation (env : Env) (s : ClientSettings) (e : ConfigError)
@@ -223,52 +400,62 @@ theorem accepted_iff (env : Env) (s : ClientSettings) :
 example : clientPostInit exEnv { exSettings with clientName := "Client" } =
     .ok (finalizeClient exEnv { exSettings with clientName := "Client" }) := by decide
 
-/-- The DOCUMENTED constraints of the client strategy (README option table + property text):
-    what a user may rely on.  One of them is stronger than what the code tests: the base client
-    class must be declared in the file (not merely occur as a substring; finding C17-F7).
-    (`fragments_module_name` must be a usable module name: tested since /repo 0686a80, which
-    repaired finding C17-F2.) -/
+/-- The DOCUMENTED constraints of the client strategy (README option table + property text), read
+    on values of every kind: a path is a `str` naming something that exists, a name is a `str` usable as
+    an identifier, a comment mode is one of the three strings, headers are a table of resolvable `str`s,
+    "given" is Python's truthiness.  One of them is stronger than what the code tests: the base
+    client class must be declared in the file (not merely occur as a substring; finding C17-F7).
+    Options the property names no constraint for (the remaining flags, `remote_schema_url` when a path is
+    given, `plugins`, `remote_schema_verify_ssl`) do not occur. -/
 structure Documented (env : Env) (s : ClientSettings) : Prop where
-  queries : s.queriesPath ≠ "" ∨ s.enableCustomOperations = true
-  source : s.schemaPath ≠ "" ∨ s.remoteSchemaUrl ≠ ""
-  schemaPath : s.schemaPath ≠ "" → env.pathExists s.schemaPath = true
-  headers : ∀ kv ∈ s.remoteSchemaHeaders, HeaderResolvable env kv.2
-  comments : Tables.commentsStrategies.contains s.includeComments = true
-  queriesPath : env.pathExists s.queriesPath = true
-  packageName : validName env s.targetPackageName = true
-  packagePath : env.isDir s.targetPackagePath = true
-  clientName : validName env s.clientName = true
-  clientFileName : validName env s.clientFileName = true
-  baseClientName : validName env (baseClientData env s).1 = true
-  baseClientPath : env.pathExists (baseClientData env s).2 = true
-  baseClientFile : env.isFile (baseClientData env s).2 = true
-  baseClientClass : classDeclared env (baseClientData env s).2 (baseClientData env s).1 = true
-  enumsModule : validName env s.enumsModuleName = true
-  inputTypesModule : validName env s.inputTypesModuleName = true
-  fragmentsModule : validName env s.fragmentsModuleName = true
-  files : ∀ f ∈ s.filesToInclude, env.isFile f = true
+  queries : s.queriesPath.truthy = true ∨ s.enableCustomOperations.truthy = true
+  source : s.schemaPath.truthy = true ∨ s.remoteSchemaUrl.truthy = true
+  schemaPath : s.schemaPath.truthy = true → IsPath env.pathExists s.schemaPath
+  headers : HeadersOk env s.remoteSchemaHeaders
+  comments : isCommentMode s.includeComments = true
+  bundled : s.baseClientName.truthy = false → s.baseClientFilePath.truthy = false →
+      BoolLike s.asyncClient ∧ BoolLike s.opentelemetryClient
+  queriesPath : IsPath env.pathExists s.queriesPath
+  packageName : IsName env s.targetPackageName
+  packagePath : IsPath env.isDir s.targetPackagePath
+  clientName : IsName env s.clientName
+  clientFileName : IsName env s.clientFileName
+  baseClientName : IsName env (baseClientData env s).1
+  baseClientPath : IsPath env.pathExists (baseClientData env s).2
+  baseClientFile : IsPath env.isFile (baseClientData env s).2
+  baseClientClass : IsPath (fun p => classDeclared env p (baseClientData env s).1.pyStr) (baseClientData env s).2
+  enumsModule : IsName env s.enumsModuleName
+  inputTypesModule : IsName env s.inputTypesModuleName
+  fragmentsModule : IsName env s.fragmentsModuleName
+  files : FilesOk env s.filesToInclude
+
+theorem isPath_mono (t1 t2 : String → Bool) (v : TV) (h : ∀ p, t1 p = true → t2 p = true) (hp : IsPath t1 v) : IsPath t2 v := by
+  obtain ⟨p, hv, ht⟩ := hp
+  exact ⟨p, hv, h p ht⟩
 
 theorem documented_no_violation (env : Env) (s : ClientSettings) (d : Documented env s) (k : ClientCheck) :
     ¬ Violates env s k := by
   cases k <;> simp only [Violates]
   case queriesRequired => rintro ⟨h1, h2⟩; rcases d.queries with h | h <;> simp_all
   case schemaSource => rintro ⟨h1, h2⟩; rcases d.source with h | h <;> simp_all
-  case schemaPathExists => rintro ⟨h1, h2⟩; have := d.schemaPath h1; simp_all
-  case headers => rintro ⟨kv, hkv, hn⟩; exact hn (d.headers kv hkv)
+  case schemaPathExists => rintro ⟨h1, h2⟩; exact h2 (d.schemaPath h1)
+  case headers => exact fun h => h d.headers
   case commentMode => have := d.comments; simp_all
-  case queriesPathExists => simp [d.queriesPath]
-  case packageName => simp [d.packageName]
-  case packagePathDir => simp [d.packagePath]
-  case clientName => simp [d.clientName]
-  case clientFileName => simp [d.clientFileName]
-  case baseClientName => simp [d.baseClientName]
-  case baseClientPathExists => simp [d.baseClientPath]
-  case baseClientIsFile => simp [d.baseClientFile]
-  case baseClientClass => simp [classDeclared_imp_definedIn env _ _ d.baseClientClass]
-  case enumsModule => simp [d.enumsModule]
-  case inputTypesModule => simp [d.inputTypesModule]
-  case fragmentsModule => simp [d.fragmentsModule]
-  case filesToInclude => rintro ⟨f, hf, hn⟩; have := d.files f hf; simp_all
+  case baseClientDefaults => rintro ⟨h1, h2, h3⟩; exact h3 (d.bundled h1 h2)
+  case queriesPathExists => exact fun h => h d.queriesPath
+  case packageName => exact fun h => h d.packageName
+  case packagePathDir => exact fun h => h d.packagePath
+  case clientName => exact fun h => h d.clientName
+  case clientFileName => exact fun h => h d.clientFileName
+  case baseClientName => exact fun h => h d.baseClientName
+  case baseClientPathExists => exact fun h => h d.baseClientPath
+  case baseClientIsFile => exact fun h => h d.baseClientFile
+  case baseClientClass =>
+    exact fun h => h (isPath_mono _ _ _ (fun p hp => classDeclared_imp_definedIn env p _ hp) d.baseClientClass)
+  case enumsModule => exact fun h => h d.enumsModule
+  case inputTypesModule => exact fun h => h d.inputTypesModule
+  case fragmentsModule => exact fun h => h d.fragmentsModule
+  case filesToInclude => exact fun h => h d.files
 
 /-- every configuration meeting the documented constraints is accepted -/
 theorem documented_accepted (env : Env) (s : ClientSettings) (d : Documented env s) :
@@ -296,8 +483,12 @@ def clientPostInitBefore0686a80 (env : Env) (s : ClientSettings) : Except Config
 theorem before_0686a80_accepted_undocumented :
     (∃ s', clientPostInitBefore0686a80 badEnv badSettings = .ok s') ∧ ¬ Documented badEnv badSettings := by
   refine ⟨⟨finalizeClient badEnv badSettings, by decide⟩, fun d => ?_⟩
-  have := d.fragmentsModule
-  revert this
+  obtain ⟨n, hn, hv⟩ := d.fragmentsModule
+  have : n = "not-valid" := by
+    have h : badSettings.fragmentsModuleName = TV.str "not-valid" := rfl
+    rw [h] at hn; injection hn with hn; exact hn.symm
+  subst this
+  revert hv
   decide
 
 def prefEnv : Env := { exEnv with readText := fun _ => "class MyBaseClient:" }
@@ -310,94 +501,239 @@ theorem accepted_not_documented :
     ¬ (∀ env s, (∃ s', clientPostInit env s = .ok s') → Documented env s) := by
   intro h
   have d := h prefEnv prefSettings ⟨finalizeClient prefEnv prefSettings, by decide⟩
-  have := d.baseClientClass
-  revert this
+  obtain ⟨p, hp, hv⟩ := d.baseClientClass
+  have h2 : (baseClientData prefEnv prefSettings).2 = TV.str "/w/custom_base.py" := by decide
+  rw [h2] at hp
+  injection hp with hp
+  subst hp
+  revert hv
   decide
+
+theorem documented_of_no_violation (env : Env) (s : ClientSettings) (h : ∀ k, ¬ Violates env s k)
+    (hc : ∀ p, (baseClientData env s).2 = .str p → classDefinedIn env p (baseClientData env s).1.pyStr = true →
+            classDeclared env p (baseClientData env s).1.pyStr = true) : Documented env s where
+  queries := by
+    have := h .queriesRequired; simp only [Violates] at this
+    cases hq : s.queriesPath.truthy
+    · right
+      cases he : s.enableCustomOperations.truthy
+      · exact absurd ⟨hq, he⟩ this
+      · rfl
+    · exact Or.inl rfl
+  source := by
+    have := h .schemaSource; simp only [Violates] at this
+    cases hq : s.schemaPath.truthy
+    · right
+      cases he : s.remoteSchemaUrl.truthy
+      · exact absurd ⟨hq, he⟩ this
+      · rfl
+    · exact Or.inl rfl
+  schemaPath := by
+    intro hne
+    have := h .schemaPathExists; simp only [Violates] at this
+    exact Classical.byContradiction fun hn => this ⟨hne, hn⟩
+  headers := by have := h .headers; simp only [Violates] at this; exact Classical.byContradiction this
+  comments := by have := h .commentMode; simp only [Violates] at this; simpa using this
+  bundled := by
+    intro h1 h2
+    have := h .baseClientDefaults; simp only [Violates] at this
+    exact Classical.byContradiction fun hn => this ⟨h1, h2, hn⟩
+  queriesPath := by have := h .queriesPathExists; simp only [Violates] at this; exact Classical.byContradiction this
+  packageName := by have := h .packageName; simp only [Violates] at this; exact Classical.byContradiction this
+  packagePath := by have := h .packagePathDir; simp only [Violates] at this; exact Classical.byContradiction this
+  clientName := by have := h .clientName; simp only [Violates] at this; exact Classical.byContradiction this
+  clientFileName := by have := h .clientFileName; simp only [Violates] at this; exact Classical.byContradiction this
+  baseClientName := by have := h .baseClientName; simp only [Violates] at this; exact Classical.byContradiction this
+  baseClientPath := by have := h .baseClientPathExists; simp only [Violates] at this; exact Classical.byContradiction this
+  baseClientFile := by have := h .baseClientIsFile; simp only [Violates] at this; exact Classical.byContradiction this
+  baseClientClass := by
+    have := h .baseClientClass; simp only [Violates] at this
+    obtain ⟨p, hp, hdef⟩ := Classical.byContradiction this
+    exact ⟨p, hp, hc p hp hdef⟩
+  enumsModule := by have := h .enumsModule; simp only [Violates] at this; exact Classical.byContradiction this
+  inputTypesModule := by have := h .inputTypesModule; simp only [Violates] at this; exact Classical.byContradiction this
+  fragmentsModule := by have := h .fragmentsModule; simp only [Violates] at this; exact Classical.byContradiction this
+  files := by have := h .filesToInclude; simp only [Violates] at this; exact Classical.byContradiction this
+
+/-- **accepted_iff_documented**, for option values of EVERY kind at every option: with C17-F2 repaired,
+    acceptance by `__post_init__` and the documented constraints differ ONLY by finding C17-F7 — where
+    the base client class is really declared in the file, the settings are accepted exactly when every
+    documented constraint holds.  (`s` ranges over dataclasses whose fields hold arbitrary `TV`s: a number
+    as comment mode is not a comment mode, a number as name is not a name, a list as path is not a path.) -/
+theorem accepted_iff_documented (env : Env) (s : ClientSettings)
+    (hc : ∀ p, (baseClientData env s).2 = .str p → classDefinedIn env p (baseClientData env s).1.pyStr = true →
+            classDeclared env p (baseClientData env s).1.pyStr = true) :
+    (∃ s', clientPostInit env s = .ok s') ↔ Documented env s := by
+  constructor
+  · intro h
+    exact documented_of_no_violation env s ((accepted_iff env s).mp h) hc
+  · intro d; exact ⟨_, documented_accepted env s d⟩
+
+theorem exEnv_class_declared (cls : String) (p : String) : classDeclared exEnv p cls = classDeclared exEnv "" cls := rfl
+
+example : Documented exEnv { exSettings with clientName := "Client" } :=
+  (accepted_iff_documented exEnv _ (by intro p _ _; rw [exEnv_class_declared]; decide)).mp
+    ⟨finalizeClient exEnv { exSettings with clientName := "Client" }, by decide⟩
+
+/-- for each option that carries a documented constraint and each kind of value other than the
+    documented one, the settings are NOT accepted (corollaries of `accepted_iff`, one per constraint class) -/
+theorem comment_mode_must_be_a_mode (env : Env) (s : ClientSettings) (h : isCommentMode s.includeComments = false) :
+    ∀ s', clientPostInit env s ≠ .ok s' := by
+  intro s' hs
+  exact (accepted_iff env s).mp ⟨s', hs⟩ .commentMode (by simpa [Violates] using h)
+
+/-- numbers, lists and tables are never comment modes (in particular 1, 0, 1.0, 0.0) -/
+theorem non_str_is_no_comment_mode (v : TV) (h : v.isStr = false) : isCommentMode v = false := by
+  cases v <;> simp_all [isCommentMode, TV.isStr]
+
+theorem name_options_must_be_str (env : Env) (s : ClientSettings)
+    (h : s.targetPackageName.isStr = false ∨ s.clientName.isStr = false ∨ s.clientFileName.isStr = false ∨
+         s.enumsModuleName.isStr = false ∨ s.inputTypesModuleName.isStr = false ∨ s.fragmentsModuleName.isStr = false) :
+    ∀ s', clientPostInit env s ≠ .ok s' := by
+  intro s' hs
+  have hnv := (accepted_iff env s).mp ⟨s', hs⟩
+  have key : ∀ v : TV, v.isStr = false → ¬ IsName env v := by
+    rintro v hv ⟨n, rfl, _⟩; cases hv
+  rcases h with h | h | h | h | h | h
+  · exact hnv .packageName (key _ h)
+  · exact hnv .clientName (key _ h)
+  · exact hnv .clientFileName (key _ h)
+  · exact hnv .enumsModule (key _ h)
+  · exact hnv .inputTypesModule (key _ h)
+  · exact hnv .fragmentsModule (key _ h)
+
+theorem path_options_must_be_str (env : Env) (s : ClientSettings)
+    (h : (s.schemaPath.truthy = true ∧ s.schemaPath.isStr = false) ∨ s.queriesPath.isStr = false ∨
+         s.targetPackagePath.isStr = false) :
+    ∀ s', clientPostInit env s ≠ .ok s' := by
+  intro s' hs
+  have hnv := (accepted_iff env s).mp ⟨s', hs⟩
+  have key : ∀ (t : String → Bool) (v : TV), v.isStr = false → ¬ IsPath t v := by
+    rintro t v hv ⟨n, rfl, _⟩; cases hv
+  rcases h with ⟨ht, h⟩ | h | h
+  · exact hnv .schemaPathExists ⟨ht, key _ _ h⟩
+  · exact hnv .queriesPathExists (key _ _ h)
+  · exact hnv .packagePathDir (key _ _ h)
 
 /-! ## 3. The graphqlschema strategy's settings -/
 
+/-- the target file name has one of the three supported suffixes -/
+def GoodTarget (f : String) : Prop :=
+  (pathSuffix f).isEmpty = false ∧
+    (asciiLower ((pathSuffix f).drop 1) = "py" ∨ asciiLower ((pathSuffix f).drop 1) = "graphql"
+      ∨ asciiLower ((pathSuffix f).drop 1) = "gql")
+
 def ViolatesS (env : Env) (s : SchemaSettings) : SchemaCheck → Prop
-  | .schemaSource => s.schemaPath = "" ∧ s.remoteSchemaUrl = ""
-  | .schemaPathExists => s.schemaPath ≠ "" ∧ env.pathExists s.schemaPath = false
-  | .headers => ∃ kv ∈ s.remoteSchemaHeaders, ¬ HeaderResolvable env kv.2
-  | .targetFileType =>
-      (pathSuffix s.targetFilePath).isEmpty = true ∨
-      ¬ (asciiLower ((pathSuffix s.targetFilePath).drop 1) = "py" ∨ asciiLower ((pathSuffix s.targetFilePath).drop 1) = "graphql"
-          ∨ asciiLower ((pathSuffix s.targetFilePath).drop 1) = "gql")
-  | .schemaVariable => validName env s.schemaVariableName = false
-  | .typeMapVariable => validName env s.typeMapVariableName = false
+  | .schemaSource => s.schemaPath.truthy = false ∧ s.remoteSchemaUrl.truthy = false
+  | .schemaPathExists => s.schemaPath.truthy = true ∧ ¬ IsPath env.pathExists s.schemaPath
+  | .headers => ¬ HeadersOk env s.remoteSchemaHeaders
+  | .targetFileType => ¬ ∃ f, s.targetFilePath = .str f ∧ GoodTarget f
+  | .schemaVariable => ¬ IsName env s.schemaVariableName
+  | .typeMapVariable => ¬ IsName env s.typeMapVariableName
 
 def ExpectedS (env : Env) (s : SchemaSettings) : SchemaCheck → ConfigError → Prop
   | .schemaSource, e => e = .noSchemaSource
-  | .schemaPathExists, e => e = .pathMissing s.schemaPath
-  | .headers, e => ∃ kv ∈ s.remoteSchemaHeaders, e = .envVarMissing (lstripDollar kv.2)
-  | .targetFileType, e => e = .targetNoFileType s.targetFilePath ∨
-      e = .targetBadFileType s.targetFilePath (asciiLower ((pathSuffix s.targetFilePath).drop 1))
-  | .schemaVariable, e => e = .badIdentifier s.schemaVariableName
-  | .typeMapVariable, e => e = .badIdentifier s.typeMapVariableName
+  | .schemaPathExists, e => PathExpected s.missing .pathMissing s.schemaPath e
+  | .headers, e =>
+      (∃ kvs, s.remoteSchemaHeaders = .table kvs ∧ HeaderErrorOf kvs e) ∨
+      (s.remoteSchemaHeaders.isTable = false ∧ e = .internal "AttributeError")
+  | .targetFileType, e =>
+      (∃ f, s.targetFilePath = .str f ∧ (e = .targetNoFileType f ∨
+          e = .targetBadFileType f (asciiLower ((pathSuffix f).drop 1)))) ∨
+      (s.targetFilePath.isStr = false ∧ e = .typeErrorAsMissing s.missing)
+  | .schemaVariable, e => NameExpected s.schemaVariableName e
+  | .typeMapVariable, e => NameExpected s.typeMapVariableName e
+
+theorem targetFileCheck_some_iff (f : String) : (∃ e, targetFileCheck f = some e) ↔ ¬ GoodTarget f := by
+  simp only [targetFileCheck, GoodTarget]
+  generalize (pathSuffix f).isEmpty = b
+  generalize asciiLower ((pathSuffix f).drop 1) = t
+  cases b
+  · by_cases h1 : t = "py" <;> by_cases h2 : t = "graphql" <;> by_cases h3 : t = "gql" <;> simp [h1, h2, h3]
+  · simp
 
 theorem checkS_raises_iff (env : Env) (s : SchemaSettings) (k : SchemaCheck) :
     (∃ e, evalSchemaCheck env s k = some e) ↔ ViolatesS env s k := by
   cases k <;> simp only [evalSchemaCheck, ViolatesS]
-  case schemaSource => cases hq : (s.schemaPath == "") <;> cases hr : (s.remoteSchemaUrl == "") <;> simp_all
-  case schemaPathExists => cases hq : (s.schemaPath == "") <;> cases env.pathExists s.schemaPath <;> simp_all
-  case headers =>
-    constructor
-    · rintro ⟨e, he⟩
-      apply Classical.byContradiction
-      intro hn
-      have : ∀ kv ∈ s.remoteSchemaHeaders, HeaderResolvable env kv.2 := by
-        intro kv hkv
-        apply Classical.byContradiction
-        intro hnr
-        exact hn ⟨kv, hkv, hnr⟩
-      rw [(firstBadHeader_none_iff env _).mpr this] at he
-      cases he
-    · rintro ⟨kv, hkv, hnr⟩
-      cases hb : firstBadHeader env s.remoteSchemaHeaders with
-      | some e => exact ⟨e, rfl⟩
-      | none => exact absurd ((firstBadHeader_none_iff env _).mp hb kv hkv) hnr
-  case targetFileType =>
-    simp only [targetFileCheck]
-    generalize (pathSuffix s.targetFilePath).isEmpty = b
-    generalize asciiLower ((pathSuffix s.targetFilePath).drop 1) = t
-    cases b
-    · by_cases h1 : t = "py" <;> by_cases h2 : t = "graphql" <;> by_cases h3 : t = "gql" <;> simp [h1, h2, h3]
+  case schemaSource => cases s.schemaPath.truthy <;> cases s.remoteSchemaUrl.truthy <;> simp
+  case schemaPathExists =>
+    cases ht : s.schemaPath.truthy
     · simp
-  case schemaVariable => exact identCheck_some_iff env _
-  case typeMapVariable => exact identCheck_some_iff env _
+    · simp only [if_true, true_and]; exact pathCheck_some_iff _ _ _ _
+  case headers =>
+    rw [← firstBadHeaderV_none_iff]
+    cases firstBadHeaderV env s.remoteSchemaHeaders <;> simp
+  case targetFileType =>
+    cases hv : s.targetFilePath <;> simp [targetFileCheckV]
+    case str f => simpa using targetFileCheck_some_iff f
+  case schemaVariable => exact identCheckV_some_iff env _
+  case typeMapVariable => exact identCheckV_some_iff env _
 
 theorem checkS_error_expected (env : Env) (s : SchemaSettings) (k : SchemaCheck) (e : ConfigError)
     (h : evalSchemaCheck env s k = some e) : ExpectedS env s k e := by
   cases k <;> simp only [evalSchemaCheck, ExpectedS] at h ⊢
   case schemaSource => split at h <;> simp_all
-  case schemaPathExists => split at h <;> simp_all
-  case headers => exact firstBadHeader_some env _ e h
-  case targetFileType =>
-    simp only [targetFileCheck] at h
+  case schemaPathExists =>
     split at h
-    · left; simp_all
-    · split at h
-      · simp at h
-      · right; simp_all
-  case schemaVariable => exact identCheck_eq env _ e h
-  case typeMapVariable => exact identCheck_eq env _ e h
+    · exact pathExpected_of _ _ _ _ _ h
+    · cases h
+  case headers => exact firstBadHeaderV_some env _ e h
+  case targetFileType =>
+    cases hv : s.targetFilePath <;> simp only [hv, targetFileCheckV, TV.isStr] at h ⊢
+    case str f =>
+      left
+      refine ⟨f, rfl, ?_⟩
+      simp only [targetFileCheck] at h
+      split at h
+      · left; simp_all
+      · split at h
+        · simp at h
+        · right; simp_all
+    all_goals
+      right
+      simp at h
+      first | exact ⟨rfl, h.symm⟩ | exact ⟨trivial, h.symm⟩ | simp_all
+  case schemaVariable => exact identCheckV_eq env _ e h
+  case typeMapVariable => exact identCheckV_eq env _ e h
 
-theorem checkS_error_typed (env : Env) (s : SchemaSettings) (k : SchemaCheck) (e : ConfigError)
+/-- the fields of `GraphQLSchemaSettings` hold values of the kinds its annotations name -/
+structure WellTypedS (s : SchemaSettings) : Prop where
+  schemaPath : s.schemaPath.isStr = true
+  headers : strTable s.remoteSchemaHeaders = true
+  target : s.targetFilePath.isStr = true
+  schemaVariable : s.schemaVariableName.isStr = true
+  typeMapVariable : s.typeMapVariableName.isStr = true
+
+theorem checkS_error_typed (env : Env) (s : SchemaSettings) (hw : WellTypedS s) (k : SchemaCheck) (e : ConfigError)
     (h : evalSchemaCheck env s k = some e) : e.typed = true := by
   have hx := checkS_error_expected env s k e h
   cases k <;> simp only [ExpectedS] at hx
-  case headers => obtain ⟨kv, _, rfl⟩ := hx; rfl
-  case targetFileType => rcases hx with rfl | rfl <;> rfl
-  all_goals (subst hx; rfl)
+  case schemaSource => subst hx; rfl
+  case schemaPathExists => exact pathExpected_typed _ _ _ _ hw.schemaPath (fun _ => rfl) hx
+  case headers =>
+    have hh := hw.headers
+    rcases hx with ⟨kvs, hk, kv, hm, hkv⟩ | ⟨hn, _⟩
+    · rw [hk] at hh
+      simp only [strTable, List.all_eq_true] at hh
+      rcases hkv with ⟨x, _, rfl⟩ | ⟨hns, _⟩
+      · rfl
+      · rw [hh kv hm] at hns; cases hns
+    · cases hv : s.remoteSchemaHeaders <;> simp [hv, strTable, TV.isTable] at hh hn
+  case targetFileType =>
+    rcases hx with ⟨f, _, rfl | rfl⟩ | ⟨hn, _⟩
+    · rfl
+    · rfl
+    · rw [hw.target] at hn; cases hn
+  case schemaVariable => exact nameExpected_typed _ _ hw.schemaVariable hx
+  case typeMapVariable => exact nameExpected_typed _ _ hw.typeMapVariable hx
 
 /-- **violation_typed** for `GraphQLSchemaSettings` (bad target file suffix, invalid variable names ...) -/
 theorem violation_typed_schema (env : Env) (s : SchemaSettings) (k : SchemaCheck) (pre post : List SchemaCheck)
     (hord : SchemaCheck.order = pre ++ k :: post)
     (hk : ViolatesS env s k) (hpre : ∀ k' ∈ pre, ¬ ViolatesS env s k') :
-    ∃ e, schemaPostInit env s = .error e ∧ ExpectedS env s k e ∧ e.typed = true := by
+    ∃ e, schemaPostInit env s = .error e ∧ ExpectedS env s k e ∧ (WellTypedS s → e.typed = true) := by
   obtain ⟨e, he⟩ := (checkS_raises_iff env s k).mpr hk
-  refine ⟨e, ?_, checkS_error_expected env s k e he, checkS_error_typed env s k e he⟩
+  refine ⟨e, ?_, checkS_error_expected env s k e he, fun hw => checkS_error_typed env s hw k e he⟩
   have hnone : ∀ k' ∈ pre, evalSchemaCheck env s k' = none := by
     intro k' hk'
     cases hc : evalSchemaCheck env s k' with
@@ -410,6 +746,8 @@ example : schemaPostInit exEnv { schemaPath := "s.graphql", targetFilePath := "o
     .error (.targetBadFileType "out/schema.txt" "txt") := by decide
 example : schemaPostInit exEnv { schemaPath := "s.graphql", targetFilePath := "schema" } =
     .error (.targetNoFileType "schema") := by decide
+example : schemaPostInit exEnv { schemaPath := "s.graphql", targetFilePath := .int 1, missing := ["plugins"] } =
+    .error (.typeErrorAsMissing ["plugins"]) := by decide
 
 theorem valid_accepted_schema (env : Env) (s : SchemaSettings) (h : ∀ k, ¬ ViolatesS env s k) :
     schemaPostInit env s = .ok (finalizeSchema env s) := by
@@ -424,52 +762,86 @@ theorem valid_accepted_schema (env : Env) (s : SchemaSettings) (h : ∀ k, ¬ Vi
 example : schemaPostInit exEnv { schemaPath := "s.graphql", targetFilePath := "d.x/S.GraphQL" } =
     .ok (finalizeSchema exEnv { schemaPath := "s.graphql", targetFilePath := "d.x/S.GraphQL" }) := by decide
 
-/-! ## 4. config.py: section lookup, scalars, unknown keys, purity -/
+/-! ## 4. config.py: section lookup, scalars, unknown keys, purity — for values of every kind -/
 
 /-- a configuration whose section is `[tool.ariadne-codegen]` -/
-def mkCfg (sec : Dict) : J := .obj [("tool", .obj [("ariadne-codegen", .obj sec)])]
+def mkCfg (sec : Dict) : Dict := [("tool", .table [("ariadne-codegen", .table sec)])]
 
-theorem getSection_mkCfg (sec : Dict) : getSection (mkCfg sec) = .ok (sec, false) := by
-  simp [getSection, mkCfg, J.lookup]
+theorem getSection_mkCfg (sec : Dict) : getSection (mkCfg sec) = .ok (.table sec, false) := by
+  simp [getSection, mkCfg, TV.lookup]
 
 /-- no `[tool.ariadne-codegen]` and no `[ariadne-codegen]` section: `MissingConfiguration`, both strategies -/
 theorem no_section_rejected (env : Env) (top : Dict)
-    (h1 : J.lookup "tool" top = none ∨ ∃ tool, J.lookup "tool" top = some (.obj tool) ∧ J.lookup "ariadne-codegen" tool = none)
-    (h2 : J.lookup "ariadne-codegen" top = none) :
-    (getClientSettings env (.obj top)).result = .error .missingSection ∧
-    (getSchemaSettings env (.obj top)).result = .error .missingSection := by
-  have hs : getSection (.obj top) = .error .missingSection := by
+    (h1 : TV.lookup "tool" top = none ∨ ∃ tool, TV.lookup "tool" top = some (.table tool) ∧ TV.lookup "ariadne-codegen" tool = none)
+    (h2 : TV.lookup "ariadne-codegen" top = none) :
+    (getClientSettings env top).result = .error .missingSection ∧
+    (getSchemaSettings env top).result = .error .missingSection := by
+  have hs : getSection top = .error .missingSection := by
     rcases h1 with h | ⟨tool, ht, hn⟩
     · simp [getSection, h, h2]
     · simp [getSection, ht, hn, h2]
   simp [getClientSettings, readRawClient, getSchemaSettings, readRawSchema, hs, bind, Except.bind]
 
-example : (getClientSettings exEnv (.obj [("tool", .obj [("black", .obj [])])])).result = .error .missingSection := by decide
+example : (getClientSettings exEnv [("tool", .table [("black", .table [])])]).result = .error .missingSection := by decide
 
 /-- the deprecated top-level section is still read (with a warning), `[tool.ariadne-codegen]` wins -/
-theorem deprecated_section_read (env : Env) (top sec : Dict) (h1 : J.lookup "tool" top = none)
-    (h2 : J.lookup "ariadne-codegen" top = some (.obj sec)) :
-    getSection (.obj top) = .ok (sec, true) := by
+theorem deprecated_section_read (env : Env) (top : Dict) (sec : TV) (h1 : TV.lookup "tool" top = none)
+    (h2 : TV.lookup "ariadne-codegen" top = some sec) :
+    getSection top = .ok (sec, true) := by
   simp [getSection, h1, h2]
+
+/-- a section that is not a table (`ariadne-codegen = 1` under `[tool]`): `.copy()` / `.items()` fail
+    with a bare `AttributeError`, both strategies -/
+theorem section_not_table (env : Env) (top : Dict) (v : TV) (d : Bool) (hs : getSection top = .ok (v, d))
+    (hv : v.isTable = false) :
+    (getClientSettings env top).result = .error (.internal "AttributeError") ∧
+    (getSchemaSettings env top).result = .error (.internal "AttributeError") := by
+  cases v <;> simp [TV.isTable] at hv <;>
+    simp [getClientSettings, readRawClient, getSchemaSettings, readRawSchema, hs, bind, Except.bind]
+
+/-- `tool = <number / boolean>`: `"ariadne-codegen" in tool` is a bare `TypeError` -/
+theorem tool_not_iterable (top : Dict) (v : TV) (ht : TV.lookup "tool" top = some v)
+    (hv : v.containsStr "ariadne-codegen" = none) : getSection top = .error (.internal "TypeError") := by
+  cases v <;> simp [TV.containsStr] at hv <;> simp [getSection, ht, TV.containsStr]
+
+example : getSection [("tool", .str "see ariadne-codegen docs")] = .error (.internal "TypeError") := by decide
+example : getSection [("tool", .str "nothing"), ("ariadne-codegen", .table [])] = .ok (.table [], true) := by decide
 
 /-- **scalar without type**: the first scalar table lacking `type` (all earlier ones well-formed)
     makes `get_client_settings` raise `MissingConfiguration("Missing 'type' field ...")` -/
-theorem scalar_without_type_rejected (env : Env) (sec : Dict) (pre post : List (String × J)) (n : String)
-    (d : List (String × J)) (pres : List ScalarData)
-    (hs : J.lookup "scalars" sec = some (.obj (pre ++ (n, .obj d) :: post)))
-    (hpre : parseScalars pre = .ok pres) (hd : J.lookup "type" d = none) :
+theorem scalar_without_type_rejected (env : Env) (sec : Dict) (pre post : List (String × TV)) (n : String)
+    (d : List (String × TV)) (pres : List ScalarData)
+    (hs : TV.lookup "scalars" sec = some (.table (pre ++ (n, .table d) :: post)))
+    (hpre : parseScalars pre = .ok pres) (hd : TV.lookup "type" d = none) :
     (getClientSettings env (mkCfg sec)).result = .error .scalarMissingType := by
   simp [getClientSettings, readRawClient, getSection_mkCfg, Heap.copy, hs, bind, Except.bind,
     parseScalars_missing_type pre post n d pres hpre hd]
 
 example : (getClientSettings exEnv (mkCfg [("schema_path", .str "s"), ("queries_path", .str "q"),
-    ("scalars", .obj [("A", .obj [("type", .str "str")]), ("B", .obj [("parse", .str "p")])])])).result
+    ("scalars", .table [("A", .table [("type", .str "str")]), ("B", .table [("parse", .str "p")])])])).result
     = .error .scalarMissingType := by decide
+
+/-- `scalars` that is not a table: `.items()` is a bare `AttributeError` -/
+theorem scalars_not_table (env : Env) (sec : Dict) (v : TV) (hs : TV.lookup "scalars" sec = some v)
+    (hv : v.isTable = false) : (getClientSettings env (mkCfg sec)).result = .error (.internal "AttributeError") := by
+  cases v <;> simp [TV.isTable] at hv <;>
+    simp [getClientSettings, readRawClient, getSection_mkCfg, Heap.copy, hs, bind, Except.bind]
+
+/-- a scalar entry that is not a table (`scalars.DT = "datetime"`): `data["type"]` is a bare `TypeError` -/
+theorem scalar_entry_not_table (n : String) (v : TV) (hv : v.isTable = false) :
+    parseScalar n v = .error (.internal "TypeError") := by
+  cases v <;> simp [TV.isTable] at hv <;> rfl
+
+example : (getClientSettings exEnv (mkCfg [("schema_path", .str "s"), ("queries_path", .str "q"),
+    ("scalars", .table [("DT", .str "datetime.datetime")])])).result = .error (.internal "TypeError") := by decide
+/-- a scalar whose `type` is a number is NOT a scalar without type for the code: `"." in 1` -/
+example : parseScalar "DT" (.table [("type", .int 1)]) = .error (.internal "TypeError") := by decide
+example : (parseScalar "DT" (.table [("type", .list [])])).toOption.map (·.type_) = some (.list []) := by decide
 
 /-- **settings_pure** (must): reading settings never mutates the configuration it is given —
     `get_client_settings` copies the section before its two item assignments, and
     `get_graphql_schema_settings` assigns nothing. -/
-theorem settings_pure (env : Env) (cfg : J) :
+theorem settings_pure (env : Env) (cfg : Dict) :
     (getClientSettings env cfg).callerAfter = cfg ∧ (getSchemaSettings env cfg).callerAfter = cfg := by
   constructor
   · simp only [getClientSettings, readRawClient]
@@ -477,18 +849,21 @@ theorem settings_pure (env : Env) (cfg : J) :
     | error e => rfl
     | ok p =>
       obtain ⟨sec, depr⟩ := p
-      simp only [Heap.copy]
-      split
-      · rfl
-      · split <;> simp [Heap.setItem]
+      cases sec <;> simp only [Heap.copy] <;> try rfl
+      case table kvs =>
+        split
+        · rfl
+        · split <;> simp [Heap.setItem]
   · simp only [getSchemaSettings, readRawSchema]
     cases hs : getSection cfg with
     | error e => rfl
-    | ok p => rfl
+    | ok p =>
+      obtain ⟨sec, depr⟩ := p
+      cases sec <;> rfl
 
 /-- the copy is what makes it so: an item assignment through an ALIASED section reaches the caller -/
-example : ((({ caller := mkCfg [("a", .null)], viaTool := true, section_ := [("a", .null)], aliased := true } : Heap).setItem
-    "scalars" (.obj [])).caller == mkCfg [("a", .null), ("scalars", .obj [])]) = true := by decide
+example : ((({ caller := mkCfg [("a", .int 0)], viaTool := true, section_ := [("a", .int 0)], aliased := true } : Heap).setItem
+    "scalars" (.table [])).caller == mkCfg [("a", .int 0), ("scalars", .table [])]) = true := by decide
 
 def knownClientKey (k : String) : Bool := clientFieldNames.contains k
 def onlyKnown (sec : Dict) : Dict := sec.filter (fun kv => knownClientKey kv.1)
@@ -496,52 +871,94 @@ def onlyKnown (sec : Dict) : Dict := sec.filter (fun kv => knownClientKey kv.1)
 theorem onlyKnown_idem (sec : Dict) : onlyKnown (onlyKnown sec) = onlyKnown sec := by
   simp [onlyKnown, List.filter_filter]
 
-theorem raw_result_onlyKnown (env : Env) (sec : Dict) :
-    (readRawClient env (mkCfg sec)).result = (readRawClient env (mkCfg (onlyKnown sec))).result := by
-  have hsc : J.lookup "scalars" (onlyKnown sec) = J.lookup "scalars" sec :=
-    lookup_filter_key knownClientKey "scalars" (by decide) sec
-  have hic : J.lookup "include_comments" (onlyKnown sec) = J.lookup "include_comments" sec :=
-    lookup_filter_key knownClientKey "include_comments" (by decide) sec
-  simp only [readRawClient, getSection_mkCfg, Heap.copy, hsc]
-  generalize (match J.lookup "scalars" sec with
-    | none => (Except.ok [] : Except ConfigError (List (String × J)))
-    | some (J.obj kvs) => Except.ok kvs
-    | some _ => Except.error (ConfigError.illTyped "scalars")) >>= parseScalars = parsed
+/-- the scalars table as `get_client_settings` reads it -/
+def scalarsOf (sec : Dict) : Except ConfigError (List ScalarData) :=
+  (match TV.lookup "scalars" sec with
+    | none => (Except.ok [] : Except ConfigError (List (String × TV)))
+    | some (TV.table kvs) => Except.ok kvs
+    | some _ => Except.error (ConfigError.internal "AttributeError")) >>= parseScalars
+
+/-- the section after the two item assignments of `get_client_settings` -/
+def sectionAfter (sec : Dict) (scalars : List ScalarData) : Dict :=
+  match TV.lookup "include_comments" sec with
+  | some (.bool b) => dictSet "include_comments" (.str (if b then "timestamp" else "none")) (dictSet "scalars" (scalarsMarker scalars) sec)
+  | _ => dictSet "scalars" (scalarsMarker scalars) sec
+
+/-- `get_client_settings` up to the dataclass constructor, spelled out -/
+theorem readRawClient_mkCfg (env : Env) (sec : Dict) :
+    (readRawClient env (mkCfg sec)).result =
+      (match scalarsOf sec with
+       | .error e => .error e
+       | .ok scalars => .ok (buildClient env (sectionAfter sec scalars) scalars)) := by
+  simp only [readRawClient, getSection_mkCfg, Heap.copy, scalarsOf, sectionAfter]
+  generalize (match TV.lookup "scalars" sec with
+    | none => (Except.ok [] : Except ConfigError (List (String × TV)))
+    | some (TV.table kvs) => Except.ok kvs
+    | some _ => Except.error (ConfigError.internal "AttributeError")) >>= parseScalars = parsed
   cases parsed with
   | error e => rfl
   | ok scalars =>
     simp only [Heap.setItem]
-    rw [lookup_dictSet_ne "include_comments" "scalars" _ sec (by decide),
-        lookup_dictSet_ne "include_comments" "scalars" _ (onlyKnown sec) (by decide), hic]
+    rw [lookup_dictSet_ne "include_comments" "scalars" _ sec (by decide)]
+    cases hl : TV.lookup "include_comments" sec with
+    | none => rfl
+    | some v => cases v <;> rfl
+
+/-- ... and whether the deprecation warning for a boolean `include_comments` is issued -/
+theorem readRawClient_mkCfg_flag (env : Env) (sec : Dict) :
+    (readRawClient env (mkCfg sec)).deprecatedBoolComments =
+      (match scalarsOf sec with
+       | .error _ => false
+       | .ok _ => (match TV.lookup "include_comments" sec with
+                   | some (.bool _) => true
+                   | _ => false)) := by
+  simp only [readRawClient, getSection_mkCfg, Heap.copy, scalarsOf]
+  generalize (match TV.lookup "scalars" sec with
+    | none => (Except.ok [] : Except ConfigError (List (String × TV)))
+    | some (TV.table kvs) => Except.ok kvs
+    | some _ => Except.error (ConfigError.internal "AttributeError")) >>= parseScalars = parsed
+  cases parsed with
+  | error e => rfl
+  | ok scalars =>
+    simp only [Heap.setItem]
+    rw [lookup_dictSet_ne "include_comments" "scalars" _ sec (by decide)]
+    cases hl : TV.lookup "include_comments" sec with
+    | none => rfl
+    | some v => cases v <;> rfl
+
+theorem raw_result_onlyKnown (env : Env) (sec : Dict) :
+    (readRawClient env (mkCfg sec)).result = (readRawClient env (mkCfg (onlyKnown sec))).result := by
+  have hsc : TV.lookup "scalars" (onlyKnown sec) = TV.lookup "scalars" sec :=
+    lookup_filter_key knownClientKey "scalars" (by decide) sec
+  have hic : TV.lookup "include_comments" (onlyKnown sec) = TV.lookup "include_comments" sec :=
+    lookup_filter_key knownClientKey "include_comments" (by decide) sec
+  rw [readRawClient_mkCfg, readRawClient_mkCfg]
+  have hso : scalarsOf (onlyKnown sec) = scalarsOf sec := by simp only [scalarsOf, hsc]
+  rw [hso]
+  cases scalarsOf sec with
+  | error e => rfl
+  | ok scalars =>
     have hf1 : ∀ v l, onlyKnown (dictSet "scalars" v l) = dictSet "scalars" v (onlyKnown l) :=
       fun v l => filter_dictSet knownClientKey "scalars" v (by decide) l
     have hf2 : ∀ v l, onlyKnown (dictSet "include_comments" v l) = dictSet "include_comments" v (onlyKnown l) :=
       fun v l => filter_dictSet knownClientKey "include_comments" v (by decide) l
-    cases hl : J.lookup "include_comments" sec with
-    | none =>
-      simp only [buildClient]
-      show assignClientFields env (onlyKnown _) scalars = assignClientFields env (onlyKnown _) scalars
-      simp only [hf1, hf2, onlyKnown_idem]
-    | some v =>
-      cases v with
-      | bool b =>
-        simp only [buildClient]
-        show assignClientFields env (onlyKnown _) scalars = assignClientFields env (onlyKnown _) scalars
-        simp only [hf1, hf2, onlyKnown_idem]
-      | _ =>
-        simp only [buildClient]
-        show assignClientFields env (onlyKnown _) scalars = assignClientFields env (onlyKnown _) scalars
-        simp only [hf1, hf2, onlyKnown_idem]
+    have key : onlyKnown (sectionAfter sec scalars) = onlyKnown (sectionAfter (onlyKnown sec) scalars) := by
+      simp only [sectionAfter, hic]
+      cases hl : TV.lookup "include_comments" sec with
+      | none => simp only [hf1, onlyKnown_idem]
+      | some v => cases v <;> simp only [hf1, hf2, onlyKnown_idem]
+    show Except.ok (assignClientFields env (onlyKnown _) scalars) = Except.ok (assignClientFields env (onlyKnown _) scalars)
+    rw [key]
 
 /-- **unknown_keys_ignored** (must): two sections that agree on the keys `ClientSettings` knows
-    (same values, same order) are read to the same result, whatever else they contain -/
+    (same values of whatever kind, same order) are read to the same result, whatever else they contain -/
 theorem unknown_keys_ignored (env : Env) (sec sec' : Dict) (h : onlyKnown sec = onlyKnown sec') :
     (getClientSettings env (mkCfg sec)).result = (getClientSettings env (mkCfg sec')).result := by
   simp only [getClientSettings]
   rw [raw_result_onlyKnown env sec, raw_result_onlyKnown env sec', h]
 
-example : onlyKnown [("zzz", .num 1 0), ("schema_path", .str "s"), ("Schema_Path", .str "x"), ("queries_path", .str "q")]
-    = onlyKnown [("schema_path", .str "s"), ("queries_path", .str "q"), ("nested", .obj [])] := by
+example : onlyKnown [("zzz", .int 1), ("schema_path", .str "s"), ("Schema_Path", .str "x"), ("queries_path", .str "q")]
+    = onlyKnown [("schema_path", .str "s"), ("queries_path", .str "q"), ("nested", .table [])] := by
   simp [onlyKnown, knownClientKey, clientFieldNames, Tables.clientSettingsFields, List.filter]
 
 def knownSchemaKey (k : String) : Bool := schemaFieldNames.contains k
@@ -551,6 +968,85 @@ theorem unknown_keys_ignored_schema (env : Env) (sec sec' : Dict)
     (getSchemaSettings env (mkCfg sec)).result = (getSchemaSettings env (mkCfg sec')).result := by
   have h' : sec.filter (fun kv => schemaFieldNames.contains kv.1) = sec'.filter (fun kv => schemaFieldNames.contains kv.1) := h
   simp only [getSchemaSettings, readRawSchema, getSection_mkCfg, buildSchema, h']
+
+/-! ### `include_comments`: only a TOML boolean takes the deprecated path; 1 / 0 / 1.0 are numbers -/
+
+theorem includeComments_of_section (env : Env) (sec : Dict) (scalars : List ScalarData) (v : TV)
+    (h : TV.lookup "include_comments" sec = some v) (hb : v.isBool = false) :
+    (buildClient env (sectionAfter sec scalars) scalars).includeComments = v := by
+  have hsa : sectionAfter sec scalars = dictSet "scalars" (scalarsMarker scalars) sec := by
+    simp only [sectionAfter, h]
+    cases v <;> simp [TV.isBool] at hb <;> rfl
+  have hk : knownClientKey "include_comments" = true := by decide
+  show getV ((sectionAfter sec scalars).filter (fun kv => knownClientKey kv.1)) "include_comments" (.str "stable") = v
+  rw [hsa]
+  unfold getV
+  rw [lookup_filter_key knownClientKey "include_comments" hk, lookup_dictSet_ne "include_comments" "scalars" _ sec (by decide), h]
+  rfl
+
+/-- **comment_value_reaches_validation**: a value of `include_comments` that is not a TOML boolean —
+    in particular the numbers 1, 0, 1.0, 0.0, which Python considers EQUAL to `True` / `False` — is handed
+    to the dataclass unchanged and without the deprecation warning -/
+theorem comment_value_reaches_validation (env : Env) (sec : Dict) (v : TV)
+    (h : TV.lookup "include_comments" sec = some v) (hb : v.isBool = false) :
+    (readRawClient env (mkCfg sec)).deprecatedBoolComments = false ∧
+    ∀ s, (readRawClient env (mkCfg sec)).result = .ok s → s.includeComments = v := by
+  constructor
+  · rw [readRawClient_mkCfg_flag, h]
+    cases scalarsOf sec with
+    | error e => rfl
+    | ok sc => cases v <;> simp [TV.isBool] at hb <;> rfl
+  · intro s hs
+    rw [readRawClient_mkCfg] at hs
+    cases hsc : scalarsOf sec with
+    | error e => simp [hsc] at hs
+    | ok scalars =>
+      simp only [hsc] at hs
+      injection hs with hs
+      rw [← hs]
+      exact includeComments_of_section env sec scalars v h hb
+
+/-- **unknown_comment_mode_rejected**: whatever else the section says, an `include_comments` that is
+    neither a TOML boolean nor one of the three mode strings is never accepted — for values of every
+    kind (numbers, lists, tables, other strings) -/
+theorem unknown_comment_mode_rejected (env : Env) (sec : Dict) (v : TV)
+    (h : TV.lookup "include_comments" sec = some v) (hb : v.isBool = false) (hm : isCommentMode v = false) :
+    ∀ s', (getClientSettings env (mkCfg sec)).result ≠ .ok s' := by
+  intro s' hs
+  simp only [getClientSettings, bind, Except.bind] at hs
+  cases hr : (readRawClient env (mkCfg sec)).result with
+  | error e => simp [hr] at hs
+  | ok s =>
+    simp only [hr] at hs
+    have hv := (comment_value_reaches_validation env sec v h hb).2 s hr
+    exact comment_mode_must_be_a_mode env s (by rw [hv]; exact hm) s' hs
+
+/-- the real TOML boolean is still translated (and warned about) -/
+theorem bool_comment_translated (env : Env) (sec : Dict) (b : Bool) (scalars : List ScalarData)
+    (h : TV.lookup "include_comments" sec = some (.bool b)) (hsc : scalarsOf sec = .ok scalars) :
+    (readRawClient env (mkCfg sec)).deprecatedBoolComments = true ∧
+    ∃ s, (readRawClient env (mkCfg sec)).result = .ok s ∧
+      s.includeComments = .str (if b then "timestamp" else "none") := by
+  constructor
+  · rw [readRawClient_mkCfg_flag, hsc, h]
+  · rw [readRawClient_mkCfg, hsc]
+    refine ⟨_, rfl, ?_⟩
+    have hk : knownClientKey "include_comments" = true := by decide
+    show getV ((sectionAfter sec scalars).filter (fun kv => knownClientKey kv.1)) "include_comments" (.str "stable") = _
+    simp only [sectionAfter, h]
+    unfold getV
+    rw [lookup_filter_key knownClientKey "include_comments" hk, lookup_dictSet_eq]
+    rfl
+
+def okSec : Dict := [("schema_path", .str "s.graphql"), ("queries_path", .str "q.graphql"), ("target_package_path", .str "/w/out")]
+
+/-- the seeded change `include_comments = 1` in one line each: rejected as a comment mode, no deprecation warning -/
+example : (getClientSettings exEnv (mkCfg (okSec ++ [("include_comments", .int 1)]))).result = .error (.badCommentMode "1") := by decide
+example : (getClientSettings exEnv (mkCfg (okSec ++ [("include_comments", .float "0.0")]))).result = .error (.badCommentMode "0.0") := by decide
+example : (getClientSettings exEnv (mkCfg (okSec ++ [("include_comments", .int 1)]))).deprecatedBoolComments = false := by decide
+example : (getClientSettings exEnv (mkCfg (okSec ++ [("include_comments", .bool true)]))).deprecatedBoolComments = true := by decide
+example : ((getClientSettings exEnv (mkCfg (okSec ++ [("include_comments", .bool true)]))).result.toOption.map (·.includeComments))
+    = some (.str "timestamp") := by decide
 
 /-- the option names the two filters are built from are the dataclass fields of the pinned tree
     (regenerated table: a new or renamed option breaks this and with it the build) -/
@@ -616,11 +1112,11 @@ theorem schema_no_write_on_failure (r : SchemaRun) (x : Phase × PyErr)
   | error e => rfl
   | ok s =>
     simp only [h1] at h ⊢
-    cases h2 : loadSchema (s.schemaPath != "") r.schema with
+    cases h2 : loadSchema s.schemaPath.truthy r.schema with
     | error e => rfl
     | ok sch =>
       simp only [h2] at h ⊢
-      cases h3 : resolvePlugins r.plugins with
+      cases h3 : resolvePlugins s.plugins r.plugins with
       | error e => rfl
       | ok u =>
         simp only [h3] at h ⊢
@@ -631,6 +1127,269 @@ theorem schema_no_write_on_failure (r : SchemaRun) (x : Phase × PyErr)
           cases h5 : r.writeError with
           | some e => rfl
           | none => simp [h5] at h
+
+/-! ## 5b. Files and directory trees: every file is syntax-checked on its own -/
+
+/-- **source_refused_iff_some_file_bad**: for EVERY directory tree (or single file) whose graphql
+    files are readable, and every `parses`: loading refuses with `InvalidGraphqlSyntax` exactly when SOME
+    graphql file of the tree does not parse on its own.  Whether the concatenation of the files would
+    parse plays no role (a file that ends inside a selection set which the next file closes is still
+    refused). -/
+theorem source_refused_iff_some_file_bad (s : Source) (hread : AllReadable s.root) :
+    (∃ m, loadSource s = .error (.codegen "InvalidGraphqlSyntax" m)) ↔
+      ∃ p t, HasFile s.root p (.text t) ∧ s.parses t = false :=
+  loadSource_refuses_iff s hread
+
+/-- the refusal names a graphql file of the tree that does not parse on its own -/
+theorem refusal_names_a_bad_file (s : Source) (m : String)
+    (h : loadSource s = .error (.codegen "InvalidGraphqlSyntax" m)) :
+    ∃ f t, m = "Invalid graphql syntax in file " ++ f ∧ HasFile s.root f (.text t) ∧ s.parses t = false := by
+  rcases loadSource_error_cases s _ h with ⟨f, t, he, hf, hp⟩ | ⟨cls, p, he, _⟩ | ⟨he, _⟩
+  · injection he with _ hm
+    exact ⟨f, t, hm, hf, hp⟩
+  · cases he
+  · cases he
+
+/-- which objects of a tree are its graphql files: exactly those whose last component has one of the
+    three suffixes, at any depth (specification `InList`, independent of the walk) -/
+theorem walk_is_the_suffix_filter (pre : List String) (ns : List FsNode) (e : Entry) :
+    e ∈ sortEntries (walkList pre ns) ↔ InList pre ns e.parts e.content := by
+  rw [mem_sortEntries]; exact mem_walkList pre ns e
+
+/-- a toy `parses` for the examples: three texts parse, nothing else does -/
+def toyParses (t : String) : Bool := t == "ok" || t == "ok\nok" || t == "{\n}"
+
+/-- a queries directory whose two files are each invalid but whose concatenation `{\n}` parses:
+    refused, naming the first file in sorted order; a comment-only / empty neighbour is refused too -/
+example : loadSource { root := .dir "/w/q" [.file "b_rest.graphql" (.text "}"), .file "a_users.graphql" (.text "{")],
+                       parses := toyParses }
+    = .error (.codegen "InvalidGraphqlSyntax" "Invalid graphql syntax in file /w/q/a_users.graphql") := by decide
+example : toyParses "{\n}" = true := by decide
+example : loadSource { root := .dir "/w/q" [.file "z.gql" (.text ""), .dir "sub" [.file "a.graphqls" (.text "ok")],
+                                             .file "notes.txt" (.text "}")],
+                       parses := toyParses }
+    = .error (.codegen "InvalidGraphqlSyntax" "Invalid graphql syntax in file /w/q/z.gql") := by decide
+/-- files in sub-directories count, other suffixes do not, the order is by path components -/
+example : (filesRead (.dir "/w/q" [.file "b.gql" (.text "2"), .dir "a" [.file "x.graphql" (.text "1")],
+    .file "a.b.graphqls" (.text "3"), .file "c.GQL" (.text "4"), .file ".graphql" (.text "5")])).map (·.1)
+    = ["/w/q/a/x.graphql", "/w/q/a.b.graphqls", "/w/q/b.gql"] := by decide
+
+theorem prepare_schema_error (r : ClientRun) (s : ClientSettings) (e : PyErr)
+    (h1 : (getClientSettings r.env r.cfg).result = .ok s) (h2 : loadSchema s.schemaPath.truthy r.schema = .error e) :
+    prepare r = .error (.loadSchema, e) := by
+  unfold prepare
+  simp only [bind, Except.bind, pure, Except.pure, throw, throwThe, MonadExceptOf.throw, h1, h2]
+
+theorem loadSchema_syntax_iff (o : SchemaOracle) (m : String) :
+    loadSchema true o = .error (.codegen "InvalidGraphqlSyntax" m) ↔
+      loadSource o.src = .error (.codegen "InvalidGraphqlSyntax" m) := by
+  unfold loadSchema
+  simp only [bind, Except.bind, pure, Except.pure, throw, throwThe, MonadExceptOf.throw, if_true]
+  cases hl : loadSource o.src with
+  | error e => simp
+  | ok u => cases o.buildError <;> simp
+
+/-- **schema_file_refused_up_front**: through the whole command — accepted settings with a schema path:
+    `main.client` fails in the schema-loading phase with `InvalidGraphqlSyntax` exactly when some graphql
+    file below `schema_path` does not parse on its own; the message names such a file and nothing was
+    written. -/
+theorem schema_file_refused_up_front (r : ClientRun) (s : ClientSettings)
+    (h1 : (getClientSettings r.env r.cfg).result = .ok s) (hsp : s.schemaPath.truthy = true)
+    (hread : AllReadable r.schema.src.root) :
+    ((∃ m, (client r).result = .error (.loadSchema, .codegen "InvalidGraphqlSyntax" m)) ↔
+      ∃ p t, HasFile r.schema.src.root p (.text t) ∧ r.schema.src.parses t = false) ∧
+    (∀ m, (client r).result = .error (.loadSchema, .codegen "InvalidGraphqlSyntax" m) → (client r).log = [] ∧
+      ∃ f t, m = "Invalid graphql syntax in file " ++ f ∧ HasFile r.schema.src.root f (.text t) ∧
+        r.schema.src.parses t = false) := by
+  have key : ∀ m, (client r).result = .error (.loadSchema, .codegen "InvalidGraphqlSyntax" m) ↔
+      loadSource r.schema.src = .error (.codegen "InvalidGraphqlSyntax" m) := by
+    intro m
+    constructor
+    · intro h
+      unfold client at h
+      cases hp : prepare r with
+      | ok p =>
+        simp only [hp] at h
+        rcases generate_spec r p with ⟨_, m', hm⟩ | ⟨e', he'⟩ | ⟨fs, hfs⟩
+        · rw [hm] at h; cases h
+        · rw [he'] at h; cases h
+        · rw [hfs] at h; cases h
+      | error x =>
+        simp only [hp] at h
+        injection h with h
+        subst h
+        rcases prepare_error_cases r _ _ hp with ⟨_, _, hph, _⟩ | ⟨s', hs', ⟨hl, _⟩ | ⟨_, _, ⟨_, hph⟩ | ⟨_, ⟨_, hph⟩ | ⟨_, ⟨_, _, hph⟩ | ⟨hph, _⟩⟩⟩⟩⟩
+        · cases hph
+        · rw [h1] at hs'
+          injection hs' with hs'
+          subst hs'
+          rw [hsp] at hl
+          exact (loadSchema_syntax_iff _ m).mp hl
+        all_goals cases hph
+    · intro h
+      have h2 : loadSchema s.schemaPath.truthy r.schema = .error (.codegen "InvalidGraphqlSyntax" m) := by
+        rw [hsp]; exact (loadSchema_syntax_iff _ m).mpr h
+      unfold client
+      rw [prepare_schema_error r s _ h1 h2]
+  constructor
+  · rw [← source_refused_iff_some_file_bad _ hread]
+    constructor
+    · rintro ⟨m, hm⟩; exact ⟨m, (key m).mp hm⟩
+    · rintro ⟨m, hm⟩; exact ⟨m, (key m).mpr hm⟩
+  · intro m hm
+    exact ⟨no_write_before_generate r _ _ hm (by decide), refusal_names_a_bad_file _ m ((key m).mp hm)⟩
+
+/-- the same for `queries_path`, once the schema was loaded, the plugins found and the validity
+    assertion passed -/
+theorem queries_file_refused_up_front (r : ClientRun) (s : ClientSettings) (sch : SchemaState)
+    (h1 : (getClientSettings r.env r.cfg).result = .ok s) (h2 : loadSchema s.schemaPath.truthy r.schema = .ok sch)
+    (h3 : resolvePlugins s.plugins r.plugins = .ok ()) (h4 : assertValid (processSchema r.plugins sch) = .ok ())
+    (hq : s.queriesPath.truthy = true) (hread : AllReadable r.queries.src.root) :
+    ((∃ m, (client r).result = .error (.loadQueries, .codegen "InvalidGraphqlSyntax" m)) ↔
+      ∃ p t, HasFile r.queries.src.root p (.text t) ∧ r.queries.src.parses t = false) ∧
+    (∀ m, (client r).result = .error (.loadQueries, .codegen "InvalidGraphqlSyntax" m) → (client r).log = []) := by
+  have hprep : ∀ e, loadQueries r.queries = .error e → prepare r = .error (.loadQueries, e) := by
+    intro e he
+    unfold prepare
+    simp only [bind, Except.bind, pure, Except.pure, throw, throwThe, MonadExceptOf.throw, h1, h2, h3, h4, hq, he, if_true]
+  have hlq : ∀ m, loadQueries r.queries = .error (.codegen "InvalidGraphqlSyntax" m) ↔
+      loadSource r.queries.src = .error (.codegen "InvalidGraphqlSyntax" m) := by
+    intro m
+    unfold loadQueries
+    simp only [bind, Except.bind, pure, Except.pure, throw, throwThe, MonadExceptOf.throw]
+    cases hl : loadSource r.queries.src with
+    | error e => simp
+    | ok u => by_cases hv : r.queries.validationErrors.isEmpty = true <;> simp [hv]
+  have key : ∀ m, (client r).result = .error (.loadQueries, .codegen "InvalidGraphqlSyntax" m) ↔
+      loadSource r.queries.src = .error (.codegen "InvalidGraphqlSyntax" m) := by
+    intro m
+    constructor
+    · intro h
+      unfold client at h
+      cases hp : prepare r with
+      | ok p =>
+        simp only [hp] at h
+        rcases generate_spec r p with ⟨_, m', hm⟩ | ⟨e', he'⟩ | ⟨fs, hfs⟩
+        · rw [hm] at h; cases h
+        · rw [he'] at h; cases h
+        · rw [hfs] at h; cases h
+      | error x =>
+        simp only [hp] at h
+        injection h with h
+        subst h
+        rcases prepare_error_cases r _ _ hp with ⟨_, _, hph, _⟩ | ⟨s', hs', ⟨_, hph⟩ | ⟨_, _, ⟨_, hph⟩ | ⟨_, ⟨_, hph⟩ | ⟨_, ⟨_, hl, _⟩ | ⟨hph, _⟩⟩⟩⟩⟩
+        · cases hph
+        · cases hph
+        · cases hph
+        · cases hph
+        · exact (hlq m).mp hl
+        · cases hph
+    · intro h
+      unfold client
+      rw [hprep _ ((hlq m).mpr h)]
+  constructor
+  · rw [← source_refused_iff_some_file_bad _ hread]
+    constructor
+    · rintro ⟨m, hm⟩; exact ⟨m, (key m).mp hm⟩
+    · rintro ⟨m, hm⟩; exact ⟨m, (key m).mpr hm⟩
+  · intro m hm
+    exact no_write_before_generate r _ _ hm (by decide)
+
+/-! ## 5c. The plugins list -/
+
+/-- a plugin string without a dot that is not a module: refused with `PluginImportError` -/
+theorem plugin_without_dot_refused (look : String → PluginLookup) (s : String)
+    (hm : look s ≠ .module) (hr : ∀ c, look s ≠ .raises c) (hd : rsplitDot s = none) :
+    resolvePlugin look s = .error (.codegen "PluginImportError" "Incorrect plugin path. Use an absolute import path.") := by
+  unfold resolvePlugin
+  cases hk : look s with
+  | module => exact absurd hk hm
+  | raises c => exact absurd hk (hr c)
+  | classOk => simp [hd]
+  | noModule => simp [hd]
+  | noAttribute => simp [hd]
+  | notPlugin => simp [hd]
+
+/-- every failure of the plugin lookup is typed (a list of strings, an import system that answers) -/
+theorem plugin_failures_typed (plugins : TV) (p : PluginsOracle) (e : PyErr)
+    (hlist : ∃ items, plugins = .list items ∧ ∀ x ∈ items, x.isStr = true) (hl : LookupsTame p)
+    (h : resolvePlugins plugins p = .error e) : e.typed = true :=
+  resolvePlugins_error_typed plugins p e hlist hl h
+
+example : resolvePlugin (fun _ => .noAttribute) "pkg.mod.Cls" =
+    .error (.codegen "PluginImportError" "Class Cls not found in module pkg.mod") := by decide
+example : resolvePlugins (.list [.str "a.B", .str "nodots"]) { lookup := fun _ => .classOk } =
+    .error (.codegen "PluginImportError" "Incorrect plugin path. Use an absolute import path.") := by decide
+
+/-! ## 5d. Where the configuration file is looked for (`get_config_file_path`) -/
+
+open Ariadne.ConfigFile in
+/-- the nearest ancestor of the current directory (itself included) that contains the file wins -/
+theorem config_file_nearest_ancestor (pathExists : String → Bool) (file : String) (rev : List String) :
+    (∀ p, searchUp pathExists file rev = .path p →
+      ∃ pre d post, ancestorsRev rev = pre ++ d :: post ∧ p = joinPath d file ∧ pathExists p = true ∧
+        ∀ d' ∈ pre, pathExists (joinPath d' file) = false) := by
+  induction rev with
+  | nil =>
+    intro p hp
+    simp only [searchUp] at hp
+    split at hp
+    · injection hp with hp
+      subst hp
+      exact ⟨[], [], [], rfl, rfl, by assumption, by simp⟩
+    · cases hp
+  | cons c rev ih =>
+    intro p hp
+    simp only [searchUp] at hp
+    split at hp
+    · injection hp with hp
+      subst hp
+      exact ⟨[], (c :: rev).reverse, ancestorsRev rev, rfl, rfl, by assumption, by simp⟩
+    · rename_i hne
+      obtain ⟨pre, d, post, hs, hp', he, hpre⟩ := ih p hp
+      refine ⟨(c :: rev).reverse :: pre, d, post, by simp [ancestorsRev, hs], hp', he, ?_⟩
+      intro d' hd'
+      rcases List.mem_cons.mp hd' with rfl | hm
+      · simpa using hne
+      · exact hpre d' hm
+
+open Ariadne.ConfigFile in
+/-- `ConfigFileNotFound` is raised exactly when no ancestor up to the root contains the file, and it
+    names the file -/
+theorem config_file_not_found_iff (pathExists : String → Bool) (file : String) (rev : List String) :
+    (∃ m, searchUp pathExists file rev = .notFound m) ↔ ∀ d ∈ ancestorsRev rev, pathExists (joinPath d file) = false := by
+  induction rev with
+  | nil =>
+    simp only [searchUp, ancestorsRev, List.mem_singleton, forall_eq]
+    cases pathExists (joinPath [] file) <;> simp
+  | cons c rev ih =>
+    simp only [searchUp, ancestorsRev, List.mem_cons, forall_eq_or_imp]
+    cases h : pathExists (joinPath (c :: rev).reverse file)
+    · simp [ih]
+    · simp
+
+open Ariadne.ConfigFile in
+theorem config_file_not_found_message (pathExists : String → Bool) (file : String) (rev : List String) (m : String)
+    (h : searchUp pathExists file rev = .notFound m) : m = "Config file " ++ file ++ " not found." := by
+  induction rev with
+  | nil =>
+    simp only [searchUp] at h
+    split at h
+    · cases h
+    · injection h with h; exact h.symm
+  | cons c rev ih =>
+    simp only [searchUp] at h
+    split at h
+    · cases h
+    · exact ih h
+
+open Ariadne.ConfigFile in
+example : getConfigFilePath (fun p => p == "/a/pyproject.toml" || p == "/pyproject.toml") ["a", "b", "c"] "pyproject.toml"
+    = .path "/a/pyproject.toml" := by decide
+open Ariadne.ConfigFile in
+example : getConfigFilePath (fun _ => false) ["a", "b"] "x.toml" = .notFound "Config file x.toml not found." := by decide
+open Ariadne.ConfigFile in
+example : getConfigFilePath (fun p => p == "/etc/cfg.toml") ["a", "b"] "/etc/cfg.toml" = .path "/etc/cfg.toml" := by decide
 
 /-! ## 6. `assume_valid` makes the validity assertion vacuous (proved negative, finding C17-F3) -/
 
@@ -666,36 +1425,46 @@ theorem assertValid_error_untyped (s : SchemaState) (e : PyErr) (h : assertValid
 
 /-! ## 7. C17 at full strength, its refutation, and the part that holds -/
 
-/-- the configuration violates a documented constraint: no section, a scalar without type, or a
-    dataclass that does not meet `Documented` -/
-def ConfigInvalid (env : Env) (cfg : J) : Prop :=
+/-- the configuration violates a documented constraint: reading it fails before the dataclass exists
+    (no section, a scalar without type, a section / scalars table that is no table ...), or the
+    dataclass does not meet `Documented` -/
+def ConfigInvalid (env : Env) (cfg : Dict) : Prop :=
   match (readRawClient env cfg).result with
-  | .error e => e.typed = true
+  | .error _ => True
   | .ok s => ¬ Documented env s
 
-/-- a graphql source with a file that does not parse, or with no graphql file at all -/
-def BadSource (s : Source) : Prop := s.files = [] ∨ ∃ f ∈ s.files, f.2 = false
+/-- a graphql source with a file that does not parse on its own, or whose concatenation does not
+    parse (in particular: no graphql file at all) -/
+def BadSource (s : Source) : Prop :=
+  (∃ p t, HasFile s.root p (.text t) ∧ s.parses t = false) ∨
+  (∃ t, loadText s.parses s.root = .ok t ∧ s.parses t = false)
 
 def SyntaxInvalid (r : ClientRun) : Prop :=
   ∃ s, (getClientSettings r.env r.cfg).result = .ok s ∧
-    ((s.schemaPath ≠ "" ∧ BadSource r.schema.src) ∨ (s.queriesPath ≠ "" ∧ BadSource r.queries.src))
+    ((s.schemaPath.truthy = true ∧ BadSource r.schema.src) ∨ (s.queriesPath.truthy = true ∧ BadSource r.queries.src))
 
 /-- graphql-core cannot build the schema, or validation (SDL + type-system rules) finds errors -/
 def SchemaInvalid (r : ClientRun) : Prop := r.schema.buildError.isSome = true ∨ r.schema.trueErrors ≠ 0
 
 def OperationInvalid (r : ClientRun) : Prop :=
-  ∃ s, (getClientSettings r.env r.cfg).result = .ok s ∧ s.queriesPath ≠ "" ∧ r.queries.validationErrors ≠ []
+  ∃ s, (getClientSettings r.env r.cfg).result = .ok s ∧ s.queriesPath.truthy = true ∧ r.queries.validationErrors ≠ []
 
 /-- the four classes of invalid input the property names -/
 def Invalid (r : ClientRun) : Prop :=
   ConfigInvalid r.env r.cfg ∨ SyntaxInvalid r ∨ SchemaInvalid r ∨ OperationInvalid r
 
-/-- the modelled domain (`Valid` of the conventions): well-typed option values, an introspection
-    transport that answers (C19's subject), plugins that do not swap the schema object -/
+/-- the modelled domain (`Valid` of the conventions): an introspection transport that answers (C19's
+    subject), plugins that do not swap the schema object, a `plugins` option that is a list of strings
+    and an import system that answers, graphql files that can be read as UTF-8 text (no directory
+    named like a graphql file) -/
 structure InDomain (r : ClientRun) : Prop where
-  wellTyped : ∀ e, (getClientSettings r.env r.cfg).result = .error e → e.typed = true
   remote : ∀ c, r.schema.remote ≠ .raw c
   plugins : r.plugins.replaces = none
+  lookups : LookupsTame r.plugins
+  pluginList : ∀ s, (getClientSettings r.env r.cfg).result = .ok s →
+      ∃ items, s.plugins = .list items ∧ ∀ x ∈ items, x.isStr = true
+  readableSchema : AllReadable r.schema.src.root
+  readableQueries : AllReadable r.queries.src.root
 
 /-- fails with one of ariadne-codegen's exception classes, before anything was written -/
 def RejectedUpFront (o : Outcome) : Prop := ∃ ph e, o.result = .error (ph, e) ∧ e.typed = true ∧ o.log = []
@@ -707,21 +1476,24 @@ def C17_full : Prop := ∀ r : ClientRun, InDomain r → Invalid r → RejectedU
 def Supported (r : ClientRun) : Prop :=
   ¬ (trigInvalidSchemaAssumed r.schema r.plugins = true ∨
      trigSchemaBuildTypeError r.schema = true ∨ trigFragmentGenError r.queries = true ∨
-     trigNoGraphqlFiles r = true ∨ trigClassSubstring r.env r.cfg = true)
+     trigNoGraphqlFiles r = true ∨ trigClassSubstring r.env r.cfg = true ∨
+     trigIllTypedInternal r.env r.cfg = true ∨ trigJoinedNotParsable r = true)
 
 /-! ### witnesses (each is replayed on the real code by harness/c17.py, corpus/C17) -/
 
-def wCfg (extra : Dict) : J :=
+def wCfg (extra : Dict) : Dict :=
   mkCfg ([("schema_path", .str "schema.graphql"), ("queries_path", .str "queries.graphql"),
           ("target_package_path", .str "/w/out")] ++ extra)
 
 def wOp : OpInfo := { name := some "GetA", moduleName := "get_a" }
 
+def wSrc (path : String) : Source := { root := .file path (.text "ok"), parses := toyParses }
+
 /-- a valid run, to be damaged in one place per witness -/
 def wBase : ClientRun := {
   env := exEnv, cfg := wCfg [],
-  schema := { src := { files := [("/w/schema.graphql", true)] } },
-  queries := { src := { files := [("/w/queries.graphql", true)] }, ops := [wOp] },
+  schema := { src := wSrc "/w/schema.graphql" },
+  queries := { src := wSrc "/w/queries.graphql", ops := [wOp] },
   pkgDirExists := false }
 
 /-- F3: interface not implemented (one validation error) — accepted, the whole package is written -/
@@ -733,36 +1505,96 @@ def wUnknownType : ClientRun := { wBase with schema := { wBase.schema with build
 def wFragmentsModule : ClientRun :=
   { wBase with env := badEnv, cfg := wCfg [("fragments_module_name", .str "not-valid")] }
 /-- F6: a schema directory without graphql files -/
-def wNoFiles : ClientRun := { wBase with schema := { src := { files := [] } } }
+def wNoFiles : ClientRun :=
+  { wBase with schema := { src := { root := .dir "/w/schema" [.file "readme.txt" (.text "x")], parses := toyParses } } }
 /-- F5: malformed @mixin on a fragment that ends up in the fragments module -/
 def wMixinFragment : ClientRun :=
   { wBase with queries := { wBase.queries with
       frags := [{ name := "UF", genError := some (.codegen "ParsingError" "Required arguments (from, import) not found.") }] } }
+/-- F8: `client_name = 5` — a name that cannot be used as an identifier, reported as bare AttributeError -/
+def wIllTypedName : ClientRun := { wBase with cfg := wCfg [("client_name", .int 5)] }
+/-- F9: two schema files that each parse (`ok`) whose concatenation does not (`ok\nok` parses for the
+    toy predicate, so the second file is `{\n}`: `ok\n{\n}` does not) -/
+def wJoined : ClientRun :=
+  { wBase with schema := { src := { root := .dir "/w/schema" [.file "a.graphql" (.text "ok"), .file "b.graphql" (.text "{\n}")],
+                                    parses := toyParses } } }
+
+theorem readable_file (p t : String) : AllReadable (.file p (.text t)) := by
+  intro p' c h
+  simp only [HasFile] at h
+  exact ⟨t, h.2⟩
 
 theorem inDomain_of_accepted (r : ClientRun) (h : isOk (getClientSettings r.env r.cfg).result = true)
-    (hr : r.schema.remote = .ok) (hp : r.plugins.replaces = none) : InDomain r :=
-  ⟨fun e he => (by rw [he] at h; cases h), fun c hc => (by rw [hr] at hc; cases hc), hp⟩
+    (hpl : ∀ s, (getClientSettings r.env r.cfg).result = .ok s → s.plugins = .list [])
+    (hr : r.schema.remote = .ok) (hp : r.plugins.replaces = none) (hl : LookupsTame r.plugins)
+    (h1 : AllReadable r.schema.src.root) (h2 : AllReadable r.queries.src.root) : InDomain r :=
+  ⟨fun c hc => (by rw [hr] at hc; cases hc), hp, hl,
+   fun s hs => ⟨[], hpl s hs, by simp⟩, h1, h2⟩
+
+theorem tame_default : LookupsTame ({} : PluginsOracle) := by
+  intro s cls h; cases h
+
+theorem plugins_of (r : ClientRun) (v : TV)
+    (h : (getClientSettings r.env r.cfg).result.toOption.map (·.plugins) = some v) :
+    ∀ s, (getClientSettings r.env r.cfg).result = .ok s → s.plugins = v := by
+  intro s hs
+  rw [hs] at h
+  simpa [Except.toOption] using h
 
 theorem wBase_accepted : isOk (client wBase).result = true ∧ (client wBase).log ≠ [] := ⟨by decide, by decide⟩
-theorem wBase_inDomain : InDomain wBase := inDomain_of_accepted _ (by decide) rfl rfl
+theorem wBase_inDomain : InDomain wBase :=
+  inDomain_of_accepted _ (by decide) (plugins_of _ _ (by decide)) rfl rfl tame_default (readable_file _ _) (readable_file _ _)
 
 theorem invalid_schema_accepted :
     Invalid wInvalidSchema ∧ InDomain wInvalidSchema ∧ isOk (client wInvalidSchema).result = true :=
-  ⟨Or.inr (Or.inr (Or.inl (Or.inr (by decide)))), inDomain_of_accepted _ (by decide) rfl rfl, by decide⟩
+  ⟨Or.inr (Or.inr (Or.inl (Or.inr (by decide)))),
+   inDomain_of_accepted _ (by decide) (plugins_of _ _ (by decide)) rfl rfl tame_default (readable_file _ _) (readable_file _ _),
+   by decide⟩
 
 theorem unknown_type_untyped :
     Invalid wUnknownType ∧ (client wUnknownType).result = .error (.loadSchema, .raw "TypeError") :=
   ⟨Or.inr (Or.inr (Or.inl (Or.inl (by decide)))), by decide⟩
 
+theorem settings_field (r : ClientRun) {α : Type} (f : ClientSettings → α) (a : α)
+    (h : (getClientSettings r.env r.cfg).result.toOption.map f = some a) :
+    ∃ s, (getClientSettings r.env r.cfg).result = .ok s ∧ f s = a := by
+  cases hr : (getClientSettings r.env r.cfg).result with
+  | error e => simp [hr, Except.toOption] at h
+  | ok s => exact ⟨s, rfl, by simpa [hr, Except.toOption] using h⟩
+
 theorem no_files_untyped :
     Invalid wNoFiles ∧ (client wNoFiles).result = .error (.loadSchema, .raw "GraphQLSyntaxError") := by
   refine ⟨Or.inr (Or.inl ?_), by decide⟩
-  obtain ⟨s, hs⟩ := (isOk_iff _).mp (show isOk (getClientSettings wNoFiles.env wNoFiles.cfg).result = true by decide)
-  refine ⟨s, hs, Or.inl ⟨?_, Or.inl rfl⟩⟩
-  intro h
-  have : (getClientSettings wNoFiles.env wNoFiles.cfg).result.toOption.map (·.schemaPath) = some "schema.graphql" := by decide
-  rw [hs] at this
-  simp [Except.toOption, h] at this
+  obtain ⟨s, hs, hf⟩ := settings_field wNoFiles (fun s => s.schemaPath.truthy) true (by decide)
+  exact ⟨s, hs, Or.inl ⟨hf, Or.inr ⟨"", by decide, by decide⟩⟩⟩
+
+/-- finding C17-F9 in the model: every file parses, the concatenation does not — graphql-core's bare
+    `GraphQLSyntaxError` escapes from the second `parse` -/
+theorem joined_untyped :
+    Invalid wJoined ∧ (client wJoined).result = .error (.loadSchema, .raw "GraphQLSyntaxError") ∧
+    trigJoinedNotParsable wJoined = true := by
+  refine ⟨Or.inr (Or.inl ?_), by decide, by decide⟩
+  obtain ⟨s, hs, hf⟩ := settings_field wJoined (fun s => s.schemaPath.truthy) true (by decide)
+  exact ⟨s, hs, Or.inl ⟨hf, Or.inr ⟨"ok\n{\n}", by decide, by decide⟩⟩⟩
+
+/-- finding C17-F8 in the model: a number as client name violates "names usable as identifiers" and
+    comes out as a bare `AttributeError` -/
+theorem illtyped_name_untyped :
+    Invalid wIllTypedName ∧ (client wIllTypedName).result = .error (.settings, .config (.internal "AttributeError")) ∧
+    trigIllTypedInternal wIllTypedName.env wIllTypedName.cfg = true := by
+  refine ⟨Or.inl ?_, by decide, by decide⟩
+  unfold ConfigInvalid
+  cases hr : (readRawClient wIllTypedName.env wIllTypedName.cfg).result with
+  | error e => trivial
+  | ok s =>
+    simp only
+    intro d
+    obtain ⟨n, hn, _⟩ := d.clientName
+    have : (readRawClient wIllTypedName.env wIllTypedName.cfg).result.toOption.map (·.clientName) = some (.int 5) := by decide
+    rw [hr] at this
+    simp only [Except.toOption, Option.map, Option.some.injEq] at this
+    rw [this] at hn
+    cases hn
 
 /-- **C17_full_false**: the property as stated does not hold of the code (model): an invalid schema
     is accepted and a package is written (finding C17-F3). -/
@@ -792,8 +1624,8 @@ theorem generate_no_late_error (r : ClientRun) (p : Prepared) (ht : trigFragment
   by_cases hd : (!(duplicates (allFileNames r.env p.settings p.resultFiles)).isEmpty) = true
   · simp [generate, hd]
   · simp only [generate, hd]
-    have hfr : fragmentsStep (if (p.settings.queriesPath != "") = true then r.queries.frags else []) = none ∨
-        fragmentsStep (if (p.settings.queriesPath != "") = true then r.queries.frags else []) = some none := by
+    have hfr : fragmentsStep (if p.settings.queriesPath.truthy = true then r.queries.frags else []) = none ∨
+        fragmentsStep (if p.settings.queriesPath.truthy = true then r.queries.frags else []) = some none := by
       split
       · exact fragmentsStep_of_no_trigger _ ht
       · exact Or.inl rfl
@@ -825,72 +1657,6 @@ example : trigFragmentGenError wBase.queries = false ∧ ∀ st, wBase.codeError
 
 /-! ### the part of C17 that holds -/
 
-theorem documented_of_no_violation (env : Env) (s : ClientSettings) (h : ∀ k, ¬ Violates env s k)
-    (hc : classDeclared env (baseClientData env s).2 (baseClientData env s).1 = true) : Documented env s where
-  queries := by
-    have := h .queriesRequired; simp only [Violates] at this
-    by_cases hq : s.queriesPath = ""
-    · right; cases he : s.enableCustomOperations with
-      | true => rfl
-      | false => exact absurd ⟨hq, he⟩ this
-    · exact Or.inl hq
-  source := by
-    have := h .schemaSource; simp only [Violates] at this
-    by_cases hq : s.schemaPath = ""
-    · right; intro hu; exact this ⟨hq, hu⟩
-    · exact Or.inl hq
-  schemaPath := by
-    intro hne
-    have := h .schemaPathExists; simp only [Violates] at this
-    cases he : env.pathExists s.schemaPath with
-    | true => rfl
-    | false => exact absurd ⟨hne, he⟩ this
-  headers := by
-    intro kv hkv
-    have := h .headers; simp only [Violates] at this
-    apply Classical.byContradiction
-    intro hn
-    exact this ⟨kv, hkv, hn⟩
-  comments := by have := h .commentMode; simp only [Violates] at this; simpa using this
-  queriesPath := by have := h .queriesPathExists; simp only [Violates] at this; simpa using this
-  packageName := by have := h .packageName; simp only [Violates] at this; simpa using this
-  packagePath := by have := h .packagePathDir; simp only [Violates] at this; simpa using this
-  clientName := by have := h .clientName; simp only [Violates] at this; simpa using this
-  clientFileName := by have := h .clientFileName; simp only [Violates] at this; simpa using this
-  baseClientName := by have := h .baseClientName; simp only [Violates] at this; simpa using this
-  baseClientPath := by have := h .baseClientPathExists; simp only [Violates] at this; simpa using this
-  baseClientFile := by have := h .baseClientIsFile; simp only [Violates] at this; simpa using this
-  baseClientClass := hc
-  enumsModule := by have := h .enumsModule; simp only [Violates] at this; simpa using this
-  inputTypesModule := by have := h .inputTypesModule; simp only [Violates] at this; simpa using this
-  fragmentsModule := by have := h .fragmentsModule; simp only [Violates] at this; simpa using this
-  files := by
-    intro f hfm
-    have := h .filesToInclude; simp only [Violates] at this
-    cases he : env.isFile f with
-    | true => rfl
-    | false => exact absurd ⟨f, hfm, he⟩ this
-
-/-- **accepted_iff_documented**: with C17-F2 repaired, acceptance by `__post_init__` and the
-    documented constraints differ ONLY by finding C17-F7 — where the base client class is really
-    declared in the file, the settings are accepted exactly when every documented constraint holds -/
-theorem accepted_iff_documented (env : Env) (s : ClientSettings)
-    (hc : classDefinedIn env (baseClientData env s).2 (baseClientData env s).1 = true →
-          classDeclared env (baseClientData env s).2 (baseClientData env s).1 = true) :
-    (∃ s', clientPostInit env s = .ok s') ↔ Documented env s := by
-  constructor
-  · intro h
-    have hnv := (accepted_iff env s).mp h
-    refine documented_of_no_violation env s hnv (hc ?_)
-    have := hnv .baseClientClass
-    simp only [Violates] at this
-    simpa using this
-  · intro d; exact ⟨_, documented_accepted env s d⟩
-
-example : Documented exEnv { exSettings with clientName := "Client" } :=
-  (accepted_iff_documented exEnv _ (by decide)).mp
-    ⟨finalizeClient exEnv { exSettings with clientName := "Client" }, by decide⟩
-
 theorem finalize_keeps (env : Env) (s0 : ClientSettings) :
     (finalizeClient env s0).fragmentsModuleName = s0.fragmentsModuleName ∧
     (finalizeClient env s0).baseClientName = (baseClientData env s0).1 ∧
@@ -898,15 +1664,34 @@ theorem finalize_keeps (env : Env) (s0 : ClientSettings) :
     (finalizeClient env s0).schemaPath = s0.schemaPath ∧ (finalizeClient env s0).queriesPath = s0.queriesPath :=
   ⟨rfl, rfl, rfl, rfl, rfl⟩
 
+/-- every `ConfigError` is an ariadne-codegen exception or a bare Python exception -/
+theorem typed_or_internal (e : ConfigError) : e.typed = true ∨ ∃ x, e = .internal x := by
+  cases e <;> first | (left; rfl) | (right; exact ⟨_, rfl⟩)
+
+/-- a source that loads is not a bad source -/
+theorem loaded_not_bad (s : Source) (h : loadSource s = .ok ()) : ¬ BadSource s := by
+  obtain ⟨t, ht, hp⟩ := (loadSource_ok_iff s).mp h
+  rintro (⟨p, x, hf, hx⟩ | ⟨t', ht', hp'⟩)
+  · obtain ⟨y, hy, hpy⟩ := loadSource_ok_files s h p _ hf
+    injection hy with hy
+    subst hy
+    rw [hx] at hpy
+    cases hpy
+  · rw [ht] at ht'
+    injection ht' with ht'
+    subst ht'
+    rw [hp] at hp'
+    cases hp'
+
 /-- outside the finding triggers, an input on which every phase up to the validation of the
     operations succeeds is not invalid -/
 theorem passes_contradict (r : ClientRun) (hd : InDomain r) (hs : Supported r) (hi : Invalid r)
     (s : ClientSettings) (sch : SchemaState)
     (h1 : (getClientSettings r.env r.cfg).result = .ok s)
-    (h2 : loadSchema (s.schemaPath != "") r.schema = .ok sch)
-    (h5 : (s.queriesPath != "") = true → loadQueries r.queries = .ok ()) : False := by
+    (h2 : loadSchema s.schemaPath.truthy r.schema = .ok sch)
+    (h5 : s.queriesPath.truthy = true → loadQueries r.queries = .ok ()) : False := by
   simp only [Supported, not_or] at hs
-  obtain ⟨hF3, hF4, _, hF6, hF7⟩ := hs
+  obtain ⟨hF3, hF4, _, hF6, hF7, _, _⟩ := hs
   rcases hi with hc | hsyn | hsch | hop
   · -- configuration
     unfold ConfigInvalid at hc
@@ -925,28 +1710,23 @@ theorem passes_contradict (r : ClientRun) (hd : InDomain r) (hs : Supported r) (
       obtain ⟨k1, k2, k3, _, _⟩ := finalize_keeps r.env s0
       apply hc
       apply documented_of_no_violation r.env s0 hnv
-      · simp only [trigClassSubstring, h1] at hF7
-        rw [hs', k2, k3] at hF7
-        cases hv : classDeclared r.env (baseClientData r.env s0).2 (baseClientData r.env s0).1 with
-        | true => rfl
-        | false => simp [hv] at hF7
+      intro p hp hdef
+      simp only [trigClassSubstring, h1] at hF7
+      rw [hs', k2, k3, hp] at hF7
+      have hpp : (TV.str p).pyStr = p := rfl
+      rw [hpp] at hF7
+      cases hv : classDeclared r.env p (baseClientData r.env s0).1.pyStr with
+      | true => rfl
+      | false => simp [hv] at hF7
   · -- syntax
     obtain ⟨s', hs', hbad⟩ := hsyn
     rw [h1] at hs'
     injection hs' with hs'
     subst hs'
     rcases hbad with ⟨hp, hb⟩ | ⟨hq, hb⟩
-    · have hfp : (s.schemaPath != "") = true := by simpa using hp
-      rw [hfp] at h2
-      have hsrc := (loadSource_ok_iff _).mp (loadSchema_true_source _ _ h2)
-      rcases hb with hb | ⟨f, hf, hff⟩
-      · exact hsrc.1 hb
-      · have := hsrc.2 f hf; simp [hff] at this
-    · have hq' : (s.queriesPath != "") = true := by simpa using hq
-      have hsrc := (loadSource_ok_iff _).mp (loadQueries_ok _ (h5 hq')).1
-      rcases hb with hb | ⟨f, hf, hff⟩
-      · exact hsrc.1 hb
-      · have := hsrc.2 f hf; simp [hff] at this
+    · rw [hp] at h2
+      exact loaded_not_bad _ (loadSchema_true_source _ _ h2) hb
+    · exact loaded_not_bad _ (loadQueries_ok _ (h5 hq)).1 hb
   · -- schema
     have hb := (loadSchema_ok _ _ _ h2).2.2.2
     rcases hsch with hsome | hne
@@ -958,20 +1738,19 @@ theorem passes_contradict (r : ClientRun) (hd : InDomain r) (hs : Supported r) (
     rw [h1] at hs'
     injection hs' with hs'
     subst hs'
-    have hq' : (s.queriesPath != "") = true := by simpa using hq
-    exact hv (loadQueries_ok _ (h5 hq')).2
+    exact hv (loadQueries_ok _ (h5 hq)).2
 
-/-- **C17_partial**: outside the five finding triggers (six before /repo 0686a80 repaired C17-F2:
-    the region of this theorem grew by the old `fragmentsModuleNameUnchecked` region), every input of the four invalid classes
-    (configuration violating a documented constraint, a graphql file that does not parse, an invalid
-    schema, an operation invalid for the schema) makes `main.client` fail with one of
-    ariadne-codegen's own exception classes and an EMPTY effect log.  (For invalid schemas the
-    statement is vacuous: every invalid schema lies inside the triggers of C17-F3/F4 — that is the finding.) -/
+/-- **C17_partial**: outside the seven finding triggers, every input of the four invalid classes
+    (configuration violating a documented constraint — with option values of every kind —, a graphql
+    file that does not parse on its own or files whose concatenation does not parse, an invalid schema,
+    an operation invalid for the schema) makes `main.client` fail with one of ariadne-codegen's own
+    exception classes and an EMPTY effect log.  (For invalid schemas the statement is vacuous: every
+    invalid schema lies inside the triggers of C17-F3/F4 — that is the finding.) -/
 theorem C17_partial (r : ClientRun) (hd : InDomain r) (hs : Supported r) (hi : Invalid r) :
     RejectedUpFront (client r) := by
   have hs' := hs
   simp only [Supported, not_or] at hs'
-  obtain ⟨_, hF4, _, hF6, _⟩ := hs'
+  obtain ⟨_, hF4, _, hF6, _, hF8, hF9⟩ := hs'
   have hbuild : r.schema.buildError = none := by
     simp only [trigSchemaBuildTypeError] at hF4
     cases hb : r.schema.buildError with
@@ -986,19 +1765,32 @@ theorem C17_partial (r : ClientRun) (hd : InDomain r) (hs : Supported r) (hi : I
     obtain ⟨ph, e⟩ := x
     refine ⟨ph, e, rfl, ?_, rfl⟩
     rcases prepare_error_cases r ph e hp with ⟨ce, hce, _, he⟩ | ⟨s, h1, ⟨hl, _⟩ | ⟨sch, h2, ⟨hpl, _⟩ | ⟨_, ⟨ha, _⟩ | ⟨_, ⟨hq, hlq, _⟩ | ⟨_, h5⟩⟩⟩⟩⟩
-    · subst he; exact hd.wellTyped ce hce
-    · have hfiles : (s.schemaPath != "") = true → r.schema.src.files ≠ [] := by
-        intro hsp hnil
-        apply hF6
-        simp [trigNoGraphqlFiles, h1, hsp, hnil]
-      exact loadSchema_error_typed _ _ e hl hfiles hd.remote hbuild
-    · exact resolvePlugins_error_typed _ e hpl
+    · subst he
+      rcases typed_or_internal ce with h | ⟨x, rfl⟩
+      · exact h
+      · exfalso; apply hF8; simp [trigIllTypedInternal, hce]
+    · have hjoin : s.schemaPath.truthy = true → ∀ t, loadText r.schema.src.parses r.schema.src.root = .ok t →
+          r.schema.src.parses t = true := by
+        intro hsp
+        apply joined_ok_of_not_triggered
+        · cases hemp : r.schema.src.files.isEmpty with
+          | false => rfl
+          | true => exfalso; apply hF6; simp [trigNoGraphqlFiles, h1, hsp, hemp]
+        · cases hj : joinedBroken r.schema.src with
+          | false => rfl
+          | true => exfalso; apply hF9; simp [trigJoinedNotParsable, h1, hsp, hj]
+      exact loadSchema_error_typed _ _ e hl (fun _ => hd.readableSchema) hjoin hd.remote hbuild
+    · exact resolvePlugins_error_typed _ _ e (hd.pluginList s h1) hd.lookups hpl
     · rw [assert_valid_is_vacuous _ _ _ _ h2 hd.plugins] at ha; cases ha
-    · have hfiles : r.queries.src.files ≠ [] := by
-        intro hnil
-        apply hF6
-        simp [trigNoGraphqlFiles, h1, hq, hnil]
-      exact loadQueries_error_typed _ e hlq hfiles
+    · have hjoin : ∀ t, loadText r.queries.src.parses r.queries.src.root = .ok t → r.queries.src.parses t = true := by
+        apply joined_ok_of_not_triggered
+        · cases hemp : r.queries.src.files.isEmpty with
+          | false => rfl
+          | true => exfalso; apply hF6; simp [trigNoGraphqlFiles, h1, hq, hemp]
+        · cases hj : joinedBroken r.queries.src with
+          | false => rfl
+          | true => exfalso; apply hF9; simp [trigJoinedNotParsable, h1, hq, hj]
+      exact loadQueries_error_typed _ e hlq hd.readableQueries hjoin
     · exact (passes_contradict r hd hs hi s sch h1 h2 h5).elim
 
 /-- non-vacuity of `C17_partial`: an invalid operation on an otherwise valid, supported run -/
@@ -1006,27 +1798,61 @@ def wInvalidOperation : ClientRun :=
   { wBase with queries := { wBase.queries with validationErrors := ["Cannot query field 'zzz' on type 'Query'."] } }
 
 theorem wInvalidOperation_hyps : InDomain wInvalidOperation ∧ Supported wInvalidOperation ∧ Invalid wInvalidOperation := by
-  refine ⟨inDomain_of_accepted _ (by decide) rfl rfl, by simp only [Supported]; decide, Or.inr (Or.inr (Or.inr ?_))⟩
-  obtain ⟨s, hs⟩ := (isOk_iff _).mp (show isOk (getClientSettings wInvalidOperation.env wInvalidOperation.cfg).result = true by decide)
-  refine ⟨s, hs, ?_, by decide⟩
-  intro h
-  have : (getClientSettings wInvalidOperation.env wInvalidOperation.cfg).result.toOption.map (·.queriesPath) = some "queries.graphql" := by decide
-  rw [hs] at this
-  simp [Except.toOption, h] at this
+  refine ⟨inDomain_of_accepted _ (by decide) (plugins_of _ _ (by decide)) rfl rfl tame_default (readable_file _ _) (readable_file _ _),
+    by simp only [Supported]; decide, Or.inr (Or.inr (Or.inr ?_))⟩
+  obtain ⟨s, hs, hf⟩ := settings_field wInvalidOperation (fun s => s.queriesPath.truthy) true (by decide)
+  exact ⟨s, hs, hf, by decide⟩
 
 example : (client wInvalidOperation).result =
     .error (.loadQueries, .codegen "InvalidOperationForSchema" "Cannot query field 'zzz' on type 'Query'.") ∧
     (client wInvalidOperation).log = [] := ⟨by decide, by decide⟩
 
+/-- non-vacuity on the syntax class: a queries DIRECTORY whose two files are each invalid but jointly
+    valid lies in the theorem's region and is rejected up front naming the first file -/
+def wSplitQueries : ClientRun :=
+  { wBase with queries := { wBase.queries with
+      src := { root := .dir "queries.graphql" [.file "b_rest.graphql" (.text "}"), .file "a_users.graphql" (.text "{")],
+               parses := toyParses } } }
+
+theorem readable_texts (path : String) (ns : List (String × String)) :
+    AllReadable (.dir path (ns.map fun nt => FsNode.file nt.1 (.text nt.2))) := by
+  intro p c h
+  obtain ⟨parts, hin, _⟩ := h
+  have hm := (mem_walkList [] _ ⟨parts, c⟩).mpr hin
+  clear hin
+  induction ns with
+  | nil => simp [walkList] at hm
+  | cons nt rest ih =>
+    simp only [List.map_cons, walkList, List.mem_append, walkNode] at hm
+    rcases hm with hm | hm
+    · split at hm
+      · simp at hm; exact ⟨nt.2, hm.2⟩
+      · simp at hm
+    · exact ih hm
+
+theorem wSplitQueries_ok :
+    InDomain wSplitQueries ∧ Supported wSplitQueries ∧ Invalid wSplitQueries ∧
+    (client wSplitQueries).result = .error (.loadQueries,
+      .codegen "InvalidGraphqlSyntax" "Invalid graphql syntax in file queries.graphql/a_users.graphql") ∧
+    (client wSplitQueries).log = [] := by
+  refine ⟨inDomain_of_accepted _ (by decide) (plugins_of _ _ (by decide)) rfl rfl tame_default (readable_file _ _)
+      (readable_texts "queries.graphql" [("b_rest.graphql", "}"), ("a_users.graphql", "{")]),
+    by simp only [Supported]; decide, Or.inr (Or.inl ?_), by decide, by decide⟩
+  obtain ⟨s, hs, hf⟩ := settings_field wSplitQueries (fun s => s.queriesPath.truthy) true (by decide)
+  refine ⟨s, hs, Or.inr ⟨hf, Or.inl ⟨"queries.graphql/a_users.graphql", "{", ?_, by decide⟩⟩⟩
+  exact (mem_filesRead_iff _ _ _).mp (by decide)
+
 /-- the union of the theorem region and the finding regions is everything (by definition) -/
 theorem supported_or_triggered (r : ClientRun) :
     Supported r ∨ trigInvalidSchemaAssumed r.schema r.plugins = true ∨
       trigSchemaBuildTypeError r.schema = true ∨ trigFragmentGenError r.queries = true ∨
-      trigNoGraphqlFiles r = true ∨ trigClassSubstring r.env r.cfg = true := by
+      trigNoGraphqlFiles r = true ∨ trigClassSubstring r.env r.cfg = true ∨
+      trigIllTypedInternal r.env r.cfg = true ∨ trigJoinedNotParsable r = true := by
   unfold Supported
   by_cases h : (trigInvalidSchemaAssumed r.schema r.plugins = true ∨
      trigSchemaBuildTypeError r.schema = true ∨ trigFragmentGenError r.queries = true ∨
-     trigNoGraphqlFiles r = true ∨ trigClassSubstring r.env r.cfg = true)
+     trigNoGraphqlFiles r = true ∨ trigClassSubstring r.env r.cfg = true ∨
+     trigIllTypedInternal r.env r.cfg = true ∨ trigJoinedNotParsable r = true)
   · exact Or.inr h
   · exact Or.inl h
 
@@ -1036,11 +1862,209 @@ example : trigSchemaBuildTypeError wUnknownType.schema = true := by decide
 example : trigNoGraphqlFiles wNoFiles = true := by decide
 example : trigFragmentGenError wMixinFragment.queries = true := by decide
 
+/-! ### how narrow the region of C17-F8 is: sections whose values have the documented kinds never
+      end in a bare Python exception -/
+
+def scalarOk : TV → Bool
+  | .table d => d.all (fun kv => kv.2.isStr)
+  | _ => false
+
+def scalarsOk : TV → Bool
+  | .table kvs => kvs.all (fun kv => scalarOk kv.2)
+  | _ => false
+
+/-- the kind each option is documented to take (dataclass annotations, README); options without a
+    kind constraint that matters to the settings code are `true` -/
+def kindOk (k : String) (v : TV) : Bool :=
+  if k = "remote_schema_headers" then strTable v
+  else if k = "files_to_include" then strList v
+  else if k = "scalars" then scalarsOk v
+  else if k = "include_comments" then v.isStr || v.isBool
+  else if k = "async_client" ∨ k = "opentelemetry_client" then v.isBool
+  else if k ∈ ["schema_path", "queries_path", "target_package_name", "target_package_path", "client_name",
+               "client_file_name", "base_client_name", "base_client_file_path", "enums_module_name",
+               "input_types_module_name", "fragments_module_name"] then v.isStr
+  else true
+
+/-- every option of the section that is present has a value of its documented kind -/
+def SectionWellTyped (sec : Dict) : Prop := ∀ k v, TV.lookup k sec = some v → kindOk k v = true
+
+theorem objectNameCheck_str (v : TV) (h : v.isStr = true) : objectNameCheck v = none := by
+  cases v <;> simp [TV.isStr] at h <;> rfl
+
+theorem lookup_mem (k : String) (v : TV) (l : List (String × TV)) (h : TV.lookup k l = some v) : (k, v) ∈ l := by
+  induction l with
+  | nil => simp [TV.lookup] at h
+  | cons kv rest ih =>
+    obtain ⟨k', v'⟩ := kv
+    by_cases hk : k' = k
+    · simp [TV.lookup, hk] at h; simp [hk, h]
+    · simp [TV.lookup, hk] at h; simp [ih h]
+
+theorem parseScalar_welltyped (n : String) (v : TV) (h : scalarOk v = true) (e : ConfigError)
+    (he : parseScalar n v = .error e) : e = .scalarMissingType := by
+  cases v <;> simp [scalarOk] at h
+  case table d =>
+    simp only [parseScalar] at he
+    cases ht : TV.lookup "type" d with
+    | none => simp [ht] at he; exact he.symm
+    | some t =>
+      simp only [ht] at he
+      have hstr : ∀ k x, TV.lookup k d = some x → x.isStr = true := fun k x hx => h k x (lookup_mem k x d hx)
+      rw [objectNameCheck_str t (hstr "type" t ht)] at he
+      have hopt : ∀ k, optObjectNameCheck (TV.lookup k d) = none := by
+        intro k
+        cases hk : TV.lookup k d with
+        | none => rfl
+        | some x =>
+          simp only [optObjectNameCheck]
+          split
+          · exact objectNameCheck_str x (hstr k x hk)
+          · rfl
+      simp [hopt] at he
+
+theorem parseScalars_welltyped (kvs : List (String × TV)) (h : kvs.all (fun kv => scalarOk kv.2) = true) (e : ConfigError)
+    (he : parseScalars kvs = .error e) : e = .scalarMissingType := by
+  induction kvs with
+  | nil => simp [parseScalars] at he
+  | cons kv rest ih =>
+    obtain ⟨n, d⟩ := kv
+    simp only [List.all_cons, Bool.and_eq_true] at h
+    simp only [parseScalars] at he
+    cases hp : parseScalar n d with
+    | error e' =>
+      simp only [hp] at he
+      injection he with he
+      subst he
+      exact parseScalar_welltyped n d h.1 _ hp
+    | ok sd =>
+      simp only [hp] at he
+      cases hr : parseScalars rest with
+      | error e' =>
+        simp only [hr] at he
+        injection he with he
+        subst he
+        exact ih h.2 hr
+      | ok ss => simp [hr] at he
+
+theorem scalarsOf_welltyped (sec : Dict) (hw : SectionWellTyped sec) (e : ConfigError) (he : scalarsOf sec = .error e) :
+    e = .scalarMissingType := by
+  unfold scalarsOf at he
+  cases hl : TV.lookup "scalars" sec with
+  | none => simp [hl, bind, Except.bind, parseScalars] at he
+  | some v =>
+    have hk := hw "scalars" v hl
+    simp only [kindOk] at hk
+    have hk' : scalarsOk v = true := by simpa using hk
+    cases v <;> simp [scalarsOk] at hk'
+    case table kvs =>
+      simp only [hl, bind, Except.bind] at he
+      exact parseScalars_welltyped kvs (by simpa [List.all_eq_true] using hk') e he
+
+/-- the section the dataclass constructor sees keeps the documented kinds (the two item assignments put
+    a table and a string) -/
+theorem field_kind (env : Env) (sec : Dict) (hw : SectionWellTyped sec) (scalars : List ScalarData) (k : String) (dflt : TV)
+    (hknown : knownClientKey k = true) (hns : k ≠ "scalars") (hd : kindOk k dflt = true)
+    (hstrict : k = "include_comments" → False) :
+    kindOk k (getV ((sectionAfter sec scalars).filter (fun kv => knownClientKey kv.1)) k dflt) = true := by
+  unfold getV
+  rw [lookup_filter_key knownClientKey k hknown]
+  have hne : k ≠ "include_comments" := fun h => hstrict h
+  have : TV.lookup k (sectionAfter sec scalars) = TV.lookup k sec := by
+    unfold sectionAfter
+    split
+    · rw [lookup_dictSet_ne k "include_comments" _ _ hne, lookup_dictSet_ne k "scalars" _ _ hns]
+    · rw [lookup_dictSet_ne k "scalars" _ _ hns]
+  rw [this]
+  cases hl : TV.lookup k sec with
+  | none => exact hd
+  | some v => exact hw k v hl
+
+theorem comments_field_kind (env : Env) (sec : Dict) (hw : SectionWellTyped sec) (scalars : List ScalarData) :
+    (getV ((sectionAfter sec scalars).filter (fun kv => knownClientKey kv.1)) "include_comments" (.str "stable")).isStr = true := by
+  unfold getV
+  rw [lookup_filter_key knownClientKey "include_comments" (by decide)]
+  unfold sectionAfter
+  cases hl : TV.lookup "include_comments" sec with
+  | none =>
+    simp only []
+    rw [lookup_dictSet_ne "include_comments" "scalars" _ _ (by decide), hl]
+    rfl
+  | some v =>
+    have hk := hw "include_comments" v hl
+    cases v <;> simp [kindOk, TV.isStr, TV.isBool] at hk
+    case bool b => simp only []; rw [lookup_dictSet_eq]; rfl
+    case str x =>
+      simp only []
+      rw [lookup_dictSet_ne "include_comments" "scalars" _ _ (by decide), hl]
+      rfl
+
+theorem buildClient_welltyped (env : Env) (sec : Dict) (hw : SectionWellTyped sec) (scalars : List ScalarData) :
+    WellTyped (buildClient env (sectionAfter sec scalars) scalars) := by
+  have F := fun k dflt hknown hns hd hstrict => field_kind env sec hw scalars k dflt hknown hns hd hstrict
+  constructor
+  · have := F "schema_path" (.str "") (by decide) (by decide) (by decide) (by decide); simp [kindOk] at this; exact this
+  · have := F "remote_schema_headers" (.table []) (by decide) (by decide) (by decide) (by decide); simp [kindOk] at this; exact this
+  · have := F "queries_path" (.str "") (by decide) (by decide) (by decide) (by decide); simp [kindOk] at this; exact this
+  · have := F "target_package_name" (.str "graphql_client") (by decide) (by decide) (by decide) (by decide); simp [kindOk] at this; exact this
+  · have := F "target_package_path" (.str env.cwd) (by decide) (by decide) (by simp [kindOk, TV.isStr]) (by decide); simp [kindOk] at this; exact this
+  · have := F "client_name" (.str "Client") (by decide) (by decide) (by decide) (by decide); simp [kindOk] at this; exact this
+  · have := F "client_file_name" (.str "client") (by decide) (by decide) (by decide) (by decide); simp [kindOk] at this; exact this
+  · have := F "base_client_name" (.str "") (by decide) (by decide) (by decide) (by decide); simp [kindOk] at this; exact this
+  · have := F "base_client_file_path" (.str "") (by decide) (by decide) (by decide) (by decide); simp [kindOk] at this; exact this
+  · have := F "enums_module_name" (.str "enums") (by decide) (by decide) (by decide) (by decide); simp [kindOk] at this; exact this
+  · have := F "input_types_module_name" (.str "input_types") (by decide) (by decide) (by decide) (by decide); simp [kindOk] at this; exact this
+  · have := F "fragments_module_name" (.str "fragments") (by decide) (by decide) (by decide) (by decide); simp [kindOk] at this; exact this
+  · have := F "async_client" (.bool true) (by decide) (by decide) (by decide) (by decide); simp [kindOk] at this; exact this
+  · have := F "opentelemetry_client" (.bool false) (by decide) (by decide) (by decide) (by decide); simp [kindOk] at this; exact this
+  · have := F "files_to_include" (.list []) (by decide) (by decide) (by decide) (by decide); simp [kindOk] at this; exact this
+
+/-- **welltyped_section_typed**: a `[tool.ariadne-codegen]` section whose options have values of the
+    documented kinds is either accepted or rejected with an ariadne-codegen exception — the bare Python
+    exceptions of finding C17-F8 occur only for values of other kinds -/
+theorem welltyped_section_typed (env : Env) (sec : Dict) (hw : SectionWellTyped sec) (e : ConfigError)
+    (he : (getClientSettings env (mkCfg sec)).result = .error e) : e.typed = true := by
+  simp only [getClientSettings, bind, Except.bind] at he
+  rw [readRawClient_mkCfg] at he
+  cases hsc : scalarsOf sec with
+  | error e' =>
+    simp only [hsc] at he
+    injection he with he
+    subst he
+    rw [scalarsOf_welltyped sec hw e' hsc]
+    rfl
+  | ok scalars =>
+    simp only [hsc] at he
+    have hwt := buildClient_welltyped env sec hw scalars
+    have hc := comments_field_kind env sec hw scalars
+    unfold clientPostInit at he
+    cases hf : firstError (evalClientCheck env (buildClient env (sectionAfter sec scalars) scalars)) ClientCheck.order with
+    | none => simp [hf] at he
+    | some e' =>
+      simp only [hf] at he
+      injection he with he
+      subst he
+      obtain ⟨pre, k, post, _, hk, _⟩ := firstError_some_split _ _ _ hf
+      exact check_error_typed env _ hwt k _ hk
+
+example : SectionWellTyped okSec := by
+  intro k v h
+  have hm := lookup_mem k v _ h
+  simp only [okSec, List.mem_cons, Prod.mk.injEq, List.not_mem_nil, or_false] at hm
+  rcases hm with ⟨rfl, rfl⟩ | ⟨rfl, rfl⟩ | ⟨rfl, rfl⟩ <;> decide
+
 /-! ### the repaired configuration finding (regression theorem) and the open one -/
 
-theorem configInvalid_of (env : Env) (cfg : J) (s : ClientSettings) (hraw : (readRawClient env cfg).result = .ok s)
+theorem configInvalid_of (env : Env) (cfg : Dict) (s : ClientSettings) (hraw : (readRawClient env cfg).result = .ok s)
     (hn : ¬ Documented env s) : ConfigInvalid env cfg := by
   unfold ConfigInvalid; rw [hraw]; exact hn
+
+theorem raw_field (env : Env) (cfg : Dict) {α : Type} (f : ClientSettings → α) (a : α)
+    (h : (readRawClient env cfg).result.toOption.map f = some a) :
+    ∃ s, (readRawClient env cfg).result = .ok s ∧ f s = a := by
+  cases hr : (readRawClient env cfg).result with
+  | error e => simp [hr, Except.toOption] at h
+  | ok s => exact ⟨s, rfl, by simpa [hr, Except.toOption] using h⟩
 
 /-- **C17_F2_witness_now_ok** (regression theorem for the repaired finding C17-F2): the old witness
     — `fragments_module_name = "not-valid"`, an invalid configuration — now lies inside the region
@@ -1052,23 +2076,22 @@ theorem C17_F2_witness_now_ok :
     (client wFragmentsModule).result = .error (.settings, .config (.badIdentifier "not-valid")) := by
   have hinv : Invalid wFragmentsModule := by
     refine Or.inl ?_
-    obtain ⟨s, hs⟩ := (isOk_iff _).mp (show isOk (readRawClient wFragmentsModule.env wFragmentsModule.cfg).result = true by decide)
+    obtain ⟨s, hs, hn⟩ := raw_field wFragmentsModule.env wFragmentsModule.cfg (·.fragmentsModuleName) (.str "not-valid") (by decide)
     refine configInvalid_of _ _ s hs (fun d => ?_)
-    have hn : (readRawClient wFragmentsModule.env wFragmentsModule.cfg).result.toOption.map (·.fragmentsModuleName) = some "not-valid" := by decide
-    rw [hs] at hn
-    simp only [Except.toOption, Option.map, Option.some.injEq] at hn
-    have := d.fragmentsModule
-    rw [hn] at this
-    revert this
+    obtain ⟨n, hn', hv⟩ := d.fragmentsModule
+    rw [hn] at hn'
+    injection hn' with hn'
+    subst hn'
+    revert hv
     decide
+  have herr : (getClientSettings wFragmentsModule.env wFragmentsModule.cfg).result = .error (.badIdentifier "not-valid") := by decide
   have hdom : InDomain wFragmentsModule :=
-    ⟨fun e he => (by
-        have h : (getClientSettings wFragmentsModule.env wFragmentsModule.cfg).result = .error (.badIdentifier "not-valid") := by decide
-        rw [h] at he; injection he with he; subst he; rfl),
-     fun c hc => (by
+    ⟨fun c hc => (by
         have h : wFragmentsModule.schema.remote = .ok := rfl
         rw [h] at hc; cases hc),
-     rfl⟩
+     rfl, tame_default,
+     fun s hs => (by rw [herr] at hs; cases hs),
+     readable_file _ _, readable_file _ _⟩
   have hsup : Supported wFragmentsModule := by simp only [Supported]; decide
   exact ⟨hinv, hdom, hsup, C17_partial _ hdom hsup hinv, by decide⟩
 
@@ -1081,16 +2104,14 @@ theorem class_prefix_invalid_but_accepted :
     Invalid wClassPrefix ∧ isOk (client wClassPrefix).result = true ∧
     trigClassSubstring wClassPrefix.env wClassPrefix.cfg = true := by
   refine ⟨Or.inl ?_, by decide, by decide⟩
-  obtain ⟨s, hs⟩ := (isOk_iff _).mp (show isOk (readRawClient wClassPrefix.env wClassPrefix.cfg).result = true by decide)
+  obtain ⟨s, hs, hn⟩ := raw_field wClassPrefix.env wClassPrefix.cfg
+    (fun s => (baseClientData wClassPrefix.env s)) (.str "MyBase", .str "/w/custom_base.py") (by decide)
   refine configInvalid_of _ _ s hs (fun d => ?_)
-  have hn : (readRawClient wClassPrefix.env wClassPrefix.cfg).result.toOption.map
-      (fun s => (s.baseClientName, s.baseClientFilePath)) = some ("MyBase", "/w/custom_base.py") := by decide
-  rw [hs] at hn
-  simp only [Except.toOption, Option.map, Option.some.injEq, Prod.mk.injEq] at hn
-  have := d.baseClientClass
-  have hcond : ("MyBase" == "" && "/w/custom_base.py" == "") = false := by decide
-  simp only [baseClientData, hn.1, hn.2, hcond, Bool.false_eq_true, if_false] at this
-  revert this
+  obtain ⟨p, hp, hv⟩ := d.baseClientClass
+  rw [hn] at hp hv
+  injection hp with hp
+  subst hp
+  revert hv
   decide
 
 end Ariadne.C17
